@@ -126,6 +126,15 @@ class FnTranslator:
         if isinstance(e, ast.Compare):
             if len(e.ops) != 1:
                 raise Untranslatable("chained comparison")
+            if isinstance(e.ops[0], (ast.Is, ast.IsNot)) \
+                    and isinstance(e.comparators[0], ast.Constant) \
+                    and e.comparators[0].value is None:
+                # `x is None`  ->  Bool parameter  x_is_none   (C14 / LoopOrder)
+                ch0 = attr_chain(e.left)
+                if ch0 is None:
+                    raise Untranslatable("`is None` of an expression")
+                v, _ = self.var(lean_ident(ch0[-1]) + "_is_none", "Bool")
+                return (v if isinstance(e.ops[0], ast.Is) else "(!%s)" % v), "Bool"
             a = self.expr(e.left)
             b = self.expr(e.comparators[0])
             sym = {ast.Lt: "<", ast.LtE: "≤", ast.Gt: ">", ast.GtE: "≥",
@@ -169,6 +178,13 @@ class FnTranslator:
             if ch2 is None:
                 raise Untranslatable("len of expression")
             return self.var("len_" + lean_ident(ch2[-1]), "Int")
+        if name in ("np.min", "np.max") and len(e.args) == 1 and isinstance(e.args[0], ast.List):
+            fn = name[3:]
+            items = [self.expr(x) for x in e.args[0].elts]
+            out = self.to_flt(items[0])
+            for a in items[1:]:
+                out = "(%s %s %s)" % (fn, out, self.to_flt(a))
+            return out, "Flt"
         args = [self.expr(a) for a in e.args]
         if e.keywords:
             raise Untranslatable("keyword arguments in call of " + name)
@@ -192,6 +208,13 @@ class FnTranslator:
                 return out, "Int"
             out = self.to_flt(args[0])
             for a in args[1:]:
+                out = "(%s %s %s)" % (fn, out, self.to_flt(a))
+            return out, "Flt"
+        if name in ("np.min", "np.max") and len(e.args) == 1 and isinstance(e.args[0], ast.List):
+            fn = name[3:]
+            items = [self.expr(x) for x in e.args[0].elts]
+            out = self.to_flt(items[0])
+            for a in items[1:]:
                 out = "(%s %s %s)" % (fn, out, self.to_flt(a))
             return out, "Flt"
         if name in ("np.round", "round") and len(args) == 1:
@@ -377,12 +400,14 @@ def translate_expr(src, rel, qual, target, lean_name, types, ret_type, params,
     return emit_def(lean_name, tr, term, ret_type, params, doc), tr
 
 
+EXTRA_IMPORTS = {"InfluenceArgs": "import Mathlib.Algebra.Ring.Defs\n"}
+
 HEADER = """/-
   GENERATED by tools/translate.py from /repo's working tree -- do not edit.
   Fragment: %s
 -/
 import OQuPyVerif.Num.FloatModel
-namespace OQuPyVerif.Generated.%s
+%snamespace OQuPyVerif.Generated.%s
 open OQuPyVerif.FloatModel
 set_option linter.unusedVariables false
 
@@ -478,6 +503,3352 @@ def frag_stepcount(src):
     return "\n".join(out)
 
 
+# ---------------------------------------------------------------------------
+# ControlCompose  (C18):  operand order of control composition, float-time -> step
+# conversion, wiring of the superoperator applications, statement order of the
+# step loops of compute_dynamics and PtTebd
+# ---------------------------------------------------------------------------
+
+CC_PREAMBLE = '''/-- Which side of the stored / accumulated operator the *other* operand of `@` is on:
+    `newLeft`  : result = new @ acc   (the new operand acts after what is already there)
+    `newRight` : result = acc @ new   (the new operand acts before what is already there) -/
+inductive Side where
+  | newLeft | newRight
+  deriving DecidableEq, Repr
+
+/-- where a contribution of `Control.get_controls` comes from -/
+inductive Src where
+  | timeKeyed | stepKeyed
+  deriving DecidableEq, Repr
+
+/-- outcome of the `isinstance` dispatch of `Control.add_single` -/
+inductive KeyKind where
+  | intKey | floatKey | reject
+  deriving DecidableEq, Repr
+
+/-- statements of the step loop of `compute_dynamics` -/
+inductive LoopOp where
+  | getControls | applyPre | breakIfLast | record | progress | applyPost
+  | getPropagators | getMpos | applyP1 | applyMpo | applyP2 | recordFinal
+  deriving DecidableEq, Repr
+
+/-- statements of `PtTebd.initialize` / `PtTebd.compute_step` -/
+inductive TebdOp where
+  | setStep | buildPropagator | clearResults | initBackend | initResults
+  | controlsPre | controlsPost | incStep | nnLayers | applyPTs | appendResults
+  deriving DecidableEq, Repr
+'''
+
+
+def _cc_unparse(n):
+    return ast.unparse(n).replace("\n", " ")
+
+
+def _cc_side(binop, is_new, is_acc, where):
+    """operand roles of  `x @ y`"""
+    if not (isinstance(binop, ast.BinOp) and isinstance(binop.op, ast.MatMult)):
+        raise Untranslatable("%s: expected `a @ b`, found %s" % (where, _cc_unparse(binop)))
+    l, r = _cc_unparse(binop.left), _cc_unparse(binop.right)
+    if is_new(l) and is_acc(r):
+        return "newLeft"
+    if is_acc(l) and is_new(r):
+        return "newRight"
+    raise Untranslatable("%s: cannot tell the operand roles in %s" % (where, _cc_unparse(binop)))
+
+
+def _cc_strip(stmts):
+    """drop docstrings and bare print(...) calls (no effect on the returned value)"""
+    out = []
+    for s in stmts:
+        if isinstance(s, ast.Expr) and isinstance(s.value, ast.Constant):
+            continue
+        if isinstance(s, ast.Expr) and isinstance(s.value, ast.Call) \
+                and _cc_unparse(s.value.func) == "print":
+            continue
+        out.append(s)
+    return out
+
+
+def _cc_add_single(src, out):
+    rel = "oqupy/control.py"
+    fn = src.function(rel, "Control.add_single")
+    body = _cc_strip(fn.body)
+    # if post: pre_post = 'post' else: pre_post = 'pre'
+    if len(body) != 2 or " ".join(_cc_unparse(body[0]).split()) != \
+            "if post: pre_post = 'post' else: pre_post = 'pre'":
+        raise Untranslatable("Control.add_single: unexpected pre/post selection")
+    disp = body[1]
+    kinds, sides = [], {}
+    node = disp
+    while True:
+        if not isinstance(node, ast.If):
+            raise Untranslatable("Control.add_single: key dispatch is not an if/elif chain")
+        test = " ".join(_cc_unparse(node.test).split())
+        if test == "isinstance(time, int)":
+            kind, store, member = "intKey", "self._step_controls[pre_post]", None
+        elif test == "isinstance(time, float)":
+            kind, store = "floatKey", "self._time_controls[pre_post]"
+        else:
+            raise Untranslatable("Control.add_single: unknown dispatch test " + test)
+        kinds.append(kind)
+        stmts = _cc_strip(node.body)
+        # locate the `if <key present>: store[time] = a @ b  else: store[time] = control_operation ...`
+        inner = [s for s in stmts if isinstance(s, ast.If)]
+        if len(inner) != 1:
+            raise Untranslatable("Control.add_single(%s): expected one presence test" % kind)
+        inner = inner[0]
+        itest = " ".join(_cc_unparse(inner.test).split())
+        pre_stmts = [" ".join(_cc_unparse(s).split()) for s in stmts if s is not inner]
+        if kind == "intKey":
+            if pre_stmts != ["steps = self._step_controls[pre_post].keys()"] or itest != "time in steps":
+                raise Untranslatable("Control.add_single(int): presence test is " + itest)
+        else:
+            if pre_stmts != [] or itest != "time in self._control_times[pre_post]":
+                raise Untranslatable("Control.add_single(float): presence test is " + itest)
+        if len(inner.body) != 1 or not isinstance(inner.body[0], ast.Assign) or \
+                " ".join(_cc_unparse(inner.body[0].targets[0]).split()) != store + "[time]":
+            raise Untranslatable("Control.add_single(%s): update branch" % kind)
+        sides[kind] = _cc_side(inner.body[0].value,
+                               lambda s: s == "control_operation",
+                               lambda s, st=store: s == st + "[time]",
+                               "Control.add_single(%s)" % kind)
+        els = [" ".join(_cc_unparse(s).split()) for s in _cc_strip(inner.orelse)]
+        if kind == "intKey":
+            want = [store + "[time] = control_operation"]
+        else:
+            want = [store + "[time] = control_operation",
+                    "times = np.append(self._control_times[pre_post], time)",
+                    "times.sort()",
+                    "self._control_times[pre_post] = times"]
+        if els != want:
+            raise Untranslatable("Control.add_single(%s): insert branch is %r" % (kind, els))
+        if len(node.orelse) == 1 and isinstance(node.orelse[0], ast.If):
+            node = node.orelse[0]
+            continue
+        if len(node.orelse) == 1 and isinstance(node.orelse[0], ast.Raise):
+            kinds.append("reject")
+            break
+        raise Untranslatable("Control.add_single: end of the dispatch chain")
+    if sorted(kinds) != ["floatKey", "intKey", "reject"]:
+        raise Untranslatable("Control.add_single: dispatch kinds %r" % kinds)
+    out.append("/-- %s:%d  Control.add_single: order of the isinstance tests on `time` -/\n"
+               "def addSingle_dispatch : List KeyKind := [%s]\n"
+               % (rel, fn.lineno, ", ".join("." + k for k in kinds)))
+    out.append("/-- Control.add_single, int key already present:  %s -/\n"
+               "def addSingle_step : Side := .%s\n"
+               % ("new @ stored" if sides["intKey"] == "newLeft" else "stored @ new", sides["intKey"]))
+    out.append("/-- Control.add_single, float key already present (new keys are appended to the time "
+               "array, which is then sorted) -/\n"
+               "def addSingle_time : Side := .%s\n" % sides["floatKey"])
+
+
+class _CCSubst(ast.NodeTransformer):
+    """replace  self._control_times['pre'|'post']  by the element variable `t`"""
+    def visit_Subscript(self, node):
+        s = _cc_unparse(node)
+        if s in ("self._control_times['pre']", "self._control_times['post']"):
+            return ast.copy_location(ast.Name(id="t", ctx=ast.Load()), node)
+        return self.generic_visit(node)
+
+
+def _cc_get_controls(src, out):
+    rel = "oqupy/control.py"
+    fn = src.function(rel, "Control.get_controls")
+    body = _cc_strip(fn.body)
+    norm = lambda s: " ".join(_cc_unparse(s).split())
+    events = {"pre": [], "post": []}
+    inits, tail = {}, []
+    cur_a = None          # (pp, expr) of the last  a = np.round(...)
+    cur_times = None      # pp selected into `times`
+    cur_steps = None      # pp of the last `steps = self._step_controls[pp].keys()`
+    i = 0
+    ty = {"t": "Flt", "start_time": "Flt", "dt": "Flt", "step": "Int", "a": "Flt"}
+    for s in body:
+        t = norm(s)
+        if t in ("pre_control_bool = False", "post_control_bool = False"):
+            continue
+        mt = None
+        for pp in ("pre", "post"):
+            if t == "%s_control = np.identity(self.dimension ** 2)" % pp:
+                inits[pp] = True
+                mt = True
+            if isinstance(s, ast.Assign) and norm(s.targets[0]) == "a" and \
+                    ("self._control_times['%s']" % pp) in t:
+                if ("self._control_times['%s']" % ("post" if pp == "pre" else "pre")) in t:
+                    raise Untranslatable("get_controls: `a` mixes pre and post times")
+                expr = _CCSubst().visit(ast.parse(_cc_unparse(s.value), mode="eval").body)
+                tr = FnTranslator(ty)
+                term = tr.to_flt(tr.expr(expr))
+                out.append(emit_def("timeToStep_" + pp, tr, term, "Flt", ["t", "start_time", "dt"],
+                                    "%s:%d  Control.get_controls:  a = %s   (elementwise; t = one "
+                                    "entry of the %s time array)" % (rel, s.lineno, _cc_unparse(s.value), pp)))
+                cur_a = pp
+                mt = True
+            if t == "times = np.array(self._control_times['%s'])[np.nonzero(a == step)]" % pp:
+                if cur_a != pp:
+                    raise Untranslatable("get_controls: `times` (%s) selected with the `a` of %s"
+                                         % (pp, cur_a))
+                out.append("/-- %s:%d  Control.get_controls:  %s -/\n"
+                           "def timeSelect_%s (t : Rat) (start_time : Rat) (dt : Rat) (step : Int) : Bool :=\n"
+                           "  (timeToStep_%s t start_time dt == ((step : Int) : Rat))\n"
+                           % (rel, s.lineno, t, pp, pp))
+                cur_times = pp
+                mt = True
+            if t == "steps = self._step_controls['%s'].keys()" % pp:
+                cur_steps = pp
+                mt = True
+        if mt:
+            continue
+        if isinstance(s, ast.If):
+            test = norm(s.test)
+            inner = _cc_strip(s.body)
+            if test == "len(times) > 0":
+                pp = cur_times
+                if pp is None:
+                    raise Untranslatable("get_controls: `times` used before it is selected")
+                tgt = None
+                for cand in ("pre", "post"):
+                    if norm(inner[0]) == "%s_control_bool = True" % cand:
+                        tgt = cand
+                if tgt is None or len(inner) != 3:
+                    raise Untranslatable("get_controls: shape of the time-stamp block")
+                a1, loop = inner[1], inner[2]
+                acc = "%s_control" % tgt
+                if not (isinstance(a1, ast.Assign) and norm(a1.targets[0]) == acc):
+                    raise Untranslatable("get_controls: first time-stamp control")
+                s1 = _cc_side(a1.value, lambda x: x == "self._time_controls['%s'][times[0]]" % pp,
+                              lambda x: x == acc, "get_controls time-stamp (first)")
+                if not (isinstance(loop, ast.For) and norm(loop.target) == "t"
+                        and norm(loop.iter) == "times[1:]" and len(loop.body) == 1
+                        and isinstance(loop.body[0], ast.Assign)
+                        and norm(loop.body[0].targets[0]) == acc):
+                    raise Untranslatable("get_controls: loop over the remaining time stamps")
+                s2 = _cc_side(loop.body[0].value, lambda x: x == "self._time_controls['%s'][t]" % pp,
+                              lambda x: x == acc, "get_controls time-stamp (loop)")
+                if s1 != s2:
+                    raise Untranslatable("get_controls: first and later time stamps compose differently")
+                if tgt != pp:
+                    raise Untranslatable("get_controls: %s control built from %s time stamps" % (tgt, pp))
+                events[tgt].append(("timeKeyed", s1))
+                continue
+            if test == "step in steps":
+                pp = cur_steps
+                tgt = None
+                for cand in ("pre", "post"):
+                    if norm(inner[0]) == "%s_control_bool = True" % cand:
+                        tgt = cand
+                if tgt is None or len(inner) != 2 or pp is None:
+                    raise Untranslatable("get_controls: shape of the step block")
+                acc = "%s_control" % tgt
+                a1 = inner[1]
+                if not (isinstance(a1, ast.Assign) and norm(a1.targets[0]) == acc):
+                    raise Untranslatable("get_controls: step control assignment")
+                s1 = _cc_side(a1.value, lambda x: x == "self._step_controls['%s'][step]" % pp,
+                              lambda x: x == acc, "get_controls step control")
+                if tgt != pp:
+                    raise Untranslatable("get_controls: %s control built from %s steps" % (tgt, pp))
+                events[tgt].append(("stepKeyed", s1))
+                continue
+            if test in ("not pre_control_bool", "not post_control_bool"):
+                pp = test.split()[1].split("_")[0]
+                if [norm(x) for x in inner] != ["%s_control = None" % pp] or s.orelse:
+                    raise Untranslatable("get_controls: None replacement for " + pp)
+                tail.append(pp)
+                continue
+        if isinstance(s, ast.Return):
+            if norm(s.value) not in ("(pre_control, post_control)", "pre_control, post_control"):
+                raise Untranslatable("get_controls: return value " + norm(s.value))
+            tail.append("return")
+            continue
+        raise Untranslatable("get_controls: unexpected statement: " + t[:120])
+    if inits != {"pre": True, "post": True} or sorted(tail) != ["post", "pre", "return"] \
+            or tail[-1] != "return":
+        raise Untranslatable("get_controls: initialisation / None replacement / return shape")
+    for pp in ("pre", "post"):
+        if sorted(e[0] for e in events[pp]) != ["stepKeyed", "timeKeyed"]:
+            raise Untranslatable("get_controls: %s control does not have exactly one time-stamp "
+                                 "and one step contribution" % pp)
+        out.append("/-- Control.get_controls: the contributions multiplied onto the identity, in "
+                   "statement order, for the %s-measurement control (absent -> None) -/\n"
+                   "def getControls_%s : List (Src × Side) := [%s]\n"
+                   % (pp, pp, ", ".join("(.%s, .%s)" % e for e in events[pp])))
+
+
+def _cc_chain(src, out):
+    rel = "oqupy/control.py"
+    norm = lambda s: " ".join(_cc_unparse(s).split())
+    fn = src.function(rel, "ChainControl.add_single_site_control")
+    body = [s for s in _cc_strip(fn.body) if not isinstance(s, ast.Assert)]
+    if len(body) != 2 or norm(body[0]) != "contr = np.array(control, dtype=NpDtype)" \
+            or not isinstance(body[1], ast.If) or norm(body[1].test) != "not post":
+        raise Untranslatable("ChainControl.add_single_site_control: unexpected shape")
+    for branch, lst in ((body[1].body, "pre"), (body[1].orelse, "post")):
+        if len(branch) != 1:
+            raise Untranslatable("ChainControl.add_single_site_control: branch shape")
+        t = norm(branch[0])
+        if not t.startswith("self._single_site_controls_%s.append({" % lst) or \
+                "'contr': contr" not in t or "'site': site" not in t or "'step': step" not in t:
+            raise Untranslatable("ChainControl.add_single_site_control: " + t[:100])
+    out.append("/-- %s:%d  ChainControl.add_single_site_control appends {contr, site, step} to the "
+               "pre list when `not post`, else to the post list (insertion order is kept) -/\n"
+               "def chainAdd_appends : Bool := true\n" % (rel, fn.lineno))
+
+    fn = src.function(rel, "ChainControl.get_single_site_controls")
+    body = _cc_strip(fn.body)
+    texts = [norm(s) for s in body]
+    if len(body) != 6 or texts[0] != "empty = True" or texts[1] != "controls = [None] * len(self)" \
+            or texts[2] != ("if not post: ss_controls = self._single_site_controls_pre "
+                            "else: ss_controls = self._single_site_controls_post") \
+            or texts[4] != "if empty: return None" or texts[5] != "return deepcopy(controls)":
+        raise Untranslatable("ChainControl.get_single_site_controls: unexpected shape")
+    loop = body[3]
+    if not (isinstance(loop, ast.For) and norm(loop.target) == "ssc" and norm(loop.iter) == "ss_controls"
+            and len(loop.body) == 1 and isinstance(loop.body[0], ast.If)
+            and norm(loop.body[0].test) == "ssc['step'] == step" and not loop.body[0].orelse):
+        raise Untranslatable("ChainControl.get_single_site_controls: loop shape")
+    inner = loop.body[0].body
+    if len(inner) != 2 or norm(inner[0]) != "empty = False" or not isinstance(inner[1], ast.If) \
+            or norm(inner[1].test) != "controls[ssc['site']] is None" \
+            or [norm(x) for x in inner[1].body] != ["controls[ssc['site']] = ssc['contr']"] \
+            or len(inner[1].orelse) != 1 or not isinstance(inner[1].orelse[0], ast.Assign) \
+            or norm(inner[1].orelse[0].targets[0]) != "controls[ssc['site']]":
+        raise Untranslatable("ChainControl.get_single_site_controls: accumulation shape")
+    side = _cc_side(inner[1].orelse[0].value, lambda x: x == "ssc['contr']",
+                    lambda x: x == "controls[ssc['site']]", "ChainControl.get_single_site_controls")
+    out.append("/-- %s:%d  ChainControl.get_single_site_controls: entries of the step are visited in "
+               "insertion order; a later entry for the same site is combined as  %s -/\n"
+               "def chainGet : Side := .%s\n"
+               % (rel, inner[1].orelse[0].lineno, norm(inner[1].orelse[0].value), side))
+
+
+def _cc_wiring(src, out):
+    norm = lambda s: " ".join(_cc_unparse(s).split())
+    # _apply_system_superoperator
+    rel = "oqupy/system_dynamics.py"
+    fn = src.function(rel, "_apply_system_superoperator")
+    texts = [norm(s) for s in _cc_strip(fn.body)]
+    want_head = "if sup_op is None: return (current_node, current_edges)"
+    if len(texts) != 7 or texts[0] != want_head \
+            or texts[1] not in ("sup_op_node = tn.Node(sup_op.T)", "sup_op_node = tn.Node(sup_op)") \
+            or texts[4] != "current_node = current_node @ sup_op_node" \
+            or texts[5] != "current_edges[-1] = new_sys_edge" \
+            or texts[6] != "return (current_node, current_edges)":
+        raise Untranslatable("_apply_system_superoperator: unexpected shape %r" % texts)
+    transposed = texts[1].endswith(".T)")
+    m1 = {"current_edges[-1] ^ sup_op_node[0]": 0, "current_edges[-1] ^ sup_op_node[1]": 1}.get(texts[2])
+    m2 = {"new_sys_edge = sup_op_node[0]": 0, "new_sys_edge = sup_op_node[1]": 1}.get(texts[3])
+    if m1 is None or m2 is None or m1 == m2:
+        raise Untranslatable("_apply_system_superoperator: edge wiring")
+    out.append("/-- %s:%d  _apply_system_superoperator: the node holds `sup_op.T` (true) or `sup_op`; "
+               "its index `contract` is joined to the state leg, the other index becomes the state leg -/\n"
+               "def sysSuperop_transposed : Bool := %s\ndef sysSuperop_contract : Nat := %d\n"
+               % (rel, fn.lineno, "true" if transposed else "false", m1))
+    # apply_site_gate
+    rel = "oqupy/backends/pt_tebd_backend.py"
+    fn = src.function(rel, "PtTebdBackend.apply_site_gate")
+    texts = [norm(s) for s in _cc_strip(fn.body) if not isinstance(s, ast.Assert)]
+    if len(texts) != 7 or texts[0] != "site = gate.sites[0]" \
+            or texts[1] not in ("matrix = tn.Node(gate.tensors[0])", "matrix = tn.Node(gate.tensors[0].T)") \
+            or texts[4] != "gam = self._gammas[site] @ matrix" \
+            or not texts[5].startswith("gam.reorder_edges([self._lam_gam_es[site], self._phys_es[site],") \
+            or texts[6] != "self._gammas[site] = gam":
+        raise Untranslatable("apply_site_gate: unexpected shape %r" % texts)
+    transposed = texts[1].endswith(".T)")
+    m1 = {"matrix[0] ^ self._phys_es[site]": 0, "matrix[1] ^ self._phys_es[site]": 1}.get(texts[2])
+    m2 = {"self._phys_es[site] = matrix[0]": 0, "self._phys_es[site] = matrix[1]": 1}.get(texts[3])
+    if m1 is None or m2 is None or m1 == m2:
+        raise Untranslatable("apply_site_gate: edge wiring")
+    out.append("/-- %s:%d  PtTebdBackend.apply_site_gate (same convention) -/\n"
+               "def siteGate_transposed : Bool := %s\ndef siteGate_contract : Nat := %d\n"
+               % (rel, fn.lineno, "true" if transposed else "false", m1))
+    fn = src.function(rel, "PtTebdBackend.apply_site_gate_layer")
+    texts = [norm(s) for s in _cc_strip(fn.body)]
+    if texts != ["for gate in gate_layer.gates: self.apply_site_gate(gate)"]:
+        raise Untranslatable("apply_site_gate_layer: unexpected shape %r" % texts)
+
+
+def _cc_cd_loop(src, out):
+    rel = "oqupy/system_dynamics.py"
+    norm = lambda s: " ".join(_cc_unparse(s).split())
+    fn = src.function(rel, "compute_dynamics")
+    # the inner `controls(step)` closure
+    inner = [s for s in fn.body if isinstance(s, ast.FunctionDef) and s.name == "controls"]
+    if len(inner) != 1 or [norm(s) for s in _cc_strip(inner[0].body)] != \
+            ["return control.get_controls(step, dt=dt, start_time=start_time)"] \
+            or [a.arg for a in inner[0].args.args] != ["step"]:
+        raise Untranslatable("compute_dynamics: the `controls` closure")
+    loops = [(i, s) for i, s in enumerate(fn.body) if isinstance(s, ast.For)]
+    if len(loops) != 1:
+        raise Untranslatable("compute_dynamics: expected exactly one top-level for loop")
+    idx, loop = loops[0]
+    if norm(loop.target) != "step" or norm(loop.iter) != "range(num_steps + 1)" or loop.orelse:
+        raise Untranslatable("compute_dynamics: loop header " + norm(loop.iter))
+    sysop = "current_node, current_edges = _apply_system_superoperator(current_node, current_edges, %s)"
+    simple = {
+        "pre_measurement_control, post_measurement_control = controls(step)": "getControls",
+        "if pre_measurement_control is not None: " + sysop % "pre_measurement_control": "applyPre",
+        "if step == num_steps: break": "breakIfLast",
+        "if record_all: caps = _get_caps(process_tensors, step) "
+        "state_tensor = _apply_caps(current_node, current_edges, caps) "
+        "state = state_tensor.reshape(hs_dim, hs_dim) states.append(state)": "record",
+        "prog_bar.update(step)": "progress",
+        "if post_measurement_control is not None: " + sysop % "post_measurement_control": "applyPost",
+        "first_half_prop, second_half_prop = propagators(step)": "getPropagators",
+        "pt_mpos = _get_pt_mpos(process_tensors, step)": "getMpos",
+        sysop % "first_half_prop": "applyP1",
+        "current_node, current_edges = _apply_pt_mpos(current_node, current_edges, pt_mpos)": "applyMpo",
+        sysop % "second_half_prop": "applyP2",
+    }
+    tags = []
+    for s in _cc_strip(loop.body):
+        t = norm(s)
+        if t not in simple:
+            raise Untranslatable("compute_dynamics loop: unexpected statement: " + t[:140])
+        tags.append(simple[t])
+    out.append("/-- %s:%d  compute_dynamics:  for step in range(num_steps + 1): ...   (statement order; "
+               "`controls(step)` = control.get_controls(step, dt=dt, start_time=start_time)) -/\n"
+               "def cdLoopBody : List LoopOp := [%s]\n"
+               % (rel, loop.lineno, ", ".join("." + t for t in tags)))
+    after = []
+    for s in fn.body[idx + 1:]:
+        t = norm(s)
+        if t.startswith("prog_bar."):
+            continue
+        after.append(t)
+    want = ["caps = _get_caps(process_tensors, step)",
+            "state_tensor = _apply_caps(current_node, current_edges, caps)",
+            "final_state = state_tensor.reshape(hs_dim, hs_dim)",
+            "states.append(final_state)"]
+    if after[:4] != want or not after[4].startswith("if record_all: times =") \
+            or after[5:] != ["return Dynamics(times=list(times), states=states)"]:
+        raise Untranslatable("compute_dynamics: statements after the loop: %r" % after)
+    out.append("/-- compute_dynamics, after the loop: the state is read out once more with the caps of "
+               "the loop variable's last value and appended -/\n"
+               "def cdAfterLoop : List LoopOp := [.recordFinal]\n")
+
+
+def _cc_tebd(src, out):
+    rel = "oqupy/pt_tebd.py"
+    norm = lambda s: " ".join(_cc_unparse(s).split())
+    layer = "for gate_layer in self._tebd_propagator.gate_layers: self._t_mps.apply_nn_gate_layer(gate_layer)"
+    table = {
+        "self._step = self._start_step": "setStep",
+        "self._results = {}": "clearResults",
+        "self._init_results()": "initResults",
+        "self._apply_controls(step=self.step, post=False)": "controlsPre",
+        "self._apply_controls(step=self.step, post=True)": "controlsPost",
+        "self._append_results()": "appendResults",
+        "self._step += 1": "incStep",
+        layer: "nnLayers",
+        "self._t_mps.apply_process_tensors(self.step, self._process_tensors)": "applyPTs",
+    }
+    for qual, name in (("PtTebd.initialize", "tebdInitialize"), ("PtTebd.compute_step", "tebdComputeStep")):
+        fn = src.function(rel, qual)
+        tags = []
+        for s in _cc_strip(fn.body):
+            t = norm(s)
+            if t.startswith("self._tebd_propagator = compute_tebd_propagator("):
+                tags.append("buildPropagator")
+            elif t.startswith("self._t_mps = PtTebdBackend("):
+                tags.append("initBackend")
+            elif t in table:
+                tags.append(table[t])
+            else:
+                raise Untranslatable("%s: unexpected statement: %s" % (qual, t[:140]))
+        out.append("/-- %s:%d  %s (statement order) -/\ndef %s : List TebdOp := [%s]\n"
+                   % (rel, fn.lineno, qual, name, ", ".join("." + t for t in tags)))
+    # _apply_controls: one site gate per site that has a control, applied through the backend
+    fn = src.function(rel, "PtTebd._apply_controls")
+    texts = [norm(s) for s in _cc_strip(fn.body)]
+    want = ["controls = self._chain_control.get_single_site_controls(step, post)",
+            "if controls is None: return",
+            "control_gates = []",
+            "for site, control in enumerate(controls): if control is not None: "
+            "control_gates.append(SiteGate(site, control))",
+            "control_gate_layer = GateLayer(parallel=True, gates=control_gates)",
+            "self._t_mps.apply_site_gate_layer(control_gate_layer)"]
+    if texts != want:
+        raise Untranslatable("PtTebd._apply_controls: unexpected shape %r" % texts)
+    # the step property and the results use the current step
+    fn = src.function(rel, "PtTebd._append_results")
+    texts = [norm(s) for s in _cc_strip(fn.body)]
+    if texts[:2] != ["self._t_mps.compute_traces(self._step, self._process_tensors)",
+                     "time = self.time(self._step)"]:
+        raise Untranslatable("PtTebd._append_results: does not read the current step first")
+    fn = src.function(rel, "PtTebd.compute")
+    text = norm(fn)
+    if "if self.step is None: self.initialize()" not in text or \
+            "while self.step < tmp_end_step: self.compute_step()" not in text:
+        raise Untranslatable("PtTebd.compute: initialise-if-fresh / while step < end_step shape")
+    out.append("/-- %s:%d  PtTebd.compute: `if self.step is None: self.initialize()` then "
+               "`while self.step < end_step: self.compute_step()`; _apply_controls turns the list "
+               "returned by get_single_site_controls(step, post) into one SiteGate per site with a "
+               "control; _append_results reads the current step -/\n"
+               "def tebdCompute_shape_checked : Bool := true\n" % (rel, fn.lineno))
+
+
+@fragment("ControlCompose")
+def frag_controlcompose(src):
+    out = [CC_PREAMBLE]
+    _cc_add_single(src, out)
+    _cc_get_controls(src, out)
+    _cc_chain(src, out)
+    _cc_wiring(src, out)
+    _cc_cd_loop(src, out)
+    _cc_tebd(src, out)
+    return "\n".join(out)
+
+
+# ---------------------------------------------------------------------------
+# CorrTimes  (C07):  time specifications of compute_correlations(_nt) -> steps,
+#                    returned time axes, which dt goes where, index write-back shape
+# ---------------------------------------------------------------------------
+
+class _C07Tr(FnTranslator):
+    """FnTranslator + `name[<int const>]` -> variable `name_<int>` (tuple components)."""
+
+    def expr(self, e):
+        if isinstance(e, ast.Subscript) and isinstance(e.value, ast.Name) \
+                and isinstance(e.slice, ast.Constant) and isinstance(e.slice.value, int) \
+                and not isinstance(e.slice.value, bool) and e.slice.value >= 0:
+            return self.var("%s_%d" % (e.value.id, e.slice.value))
+        return super().expr(e)
+
+
+def _c07_lstr(s):
+    return '"' + s.replace("\\", "\\\\").replace('"', '\\"') + '"'
+
+
+def _c07_lstrs(xs):
+    return "[" + ", ".join(_c07_lstr(x) for x in xs) + "]"
+
+
+def _c07_lpairs(xs):
+    return "[" + ", ".join("(%s, %s)" % (_c07_lstr(a), _c07_lstr(b)) for a, b in xs) + "]"
+
+
+def _c07_corr_def(name, node, types, ret, params, doc):
+    tr = _C07Tr(types)
+    t = tr.expr(node)
+    if t[1] != ret:
+        raise Untranslatable("%s: type %s, expected %s" % (name, t[1], ret))
+    return emit_def(name, tr, t[0], ret, params, doc)
+
+
+def _c07_isinstance_chain(fn, var):
+    """top-level `if isinstance(var, T): .. elif isinstance(var, U): .. else: ..`
+    -> ([(type names, body)], else body)"""
+    def names_of(test):
+        if not (isinstance(test, ast.Call) and attr_chain(test.func) == ["isinstance"]
+                and len(test.args) == 2 and isinstance(test.args[0], ast.Name)
+                and test.args[0].id == var):
+            return None
+        t = test.args[1]
+        elts = t.elts if isinstance(t, ast.Tuple) else [t]
+        if not all(isinstance(x, ast.Name) for x in elts):
+            return None
+        return [x.id for x in elts]
+    node = None
+    for s in fn.body:
+        if isinstance(s, ast.If) and names_of(s.test) is not None:
+            node = s
+            break
+    if node is None:
+        raise Untranslatable("no isinstance(%s, ..) chain in %s" % (var, fn.name))
+    chain = []
+    while True:
+        chain.append((names_of(node.test), node.body))
+        if len(node.orelse) == 1 and isinstance(node.orelse[0], ast.If) \
+                and names_of(node.orelse[0].test) is not None:
+            node = node.orelse[0]
+        else:
+            return chain, node.orelse
+
+
+def _c07_raises(stmts, exc):
+    return len(stmts) == 1 and isinstance(stmts[0], ast.Raise) and stmts[0].exc is not None \
+        and isinstance(stmts[0].exc, ast.Call) and attr_chain(stmts[0].exc.func) == [exc]
+
+
+def _c07_guard(stmt, what):
+    """`if <test>: raise IndexError(..)` -> test"""
+    if not (isinstance(stmt, ast.If) and not stmt.orelse and _c07_raises(stmt.body, "IndexError")):
+        raise Untranslatable("%s: expected `if ..: raise IndexError(..)`" % what)
+    return stmt.test
+
+
+def _c07_assign_to(stmt, name, what):
+    if not (isinstance(stmt, ast.Assign) and len(stmt.targets) == 1
+            and isinstance(stmt.targets[0], ast.Name) and stmt.targets[0].id == name):
+        raise Untranslatable("%s: expected an assignment to %s" % (what, name))
+    return stmt.value
+
+
+def _c07_np_array_singleton(v, name, what):
+    if not (isinstance(v, ast.Call) and attr_chain(v.func) == ["np", "array"] and len(v.args) == 1
+            and not v.keywords and isinstance(v.args[0], ast.List) and len(v.args[0].elts) == 1
+            and isinstance(v.args[0].elts[0], ast.Name) and v.args[0].elts[0].id == name):
+        raise Untranslatable("%s: expected np.array([%s])" % (what, name))
+
+
+def _c07_arange1(v):
+    """np.arange(<one arg>) -> the arg, else None"""
+    if isinstance(v, ast.Call) and attr_chain(v.func) == ["np", "arange"] and len(v.args) == 1 \
+            and not v.keywords:
+        return v.args[0]
+    return None
+
+
+def _c07_kwargs(call, expand=None):
+    out = []
+    for k in call.keywords:
+        if k.arg is None:
+            if expand is None or not isinstance(k.value, ast.Name) or k.value.id not in expand:
+                raise Untranslatable("cannot expand ** in call")
+            out.extend(expand[k.value.id])
+        else:
+            out.append((k.arg, ast.unparse(k.value)))
+    if call.args:
+        raise Untranslatable("positional arguments in a keyword-only call site")
+    return out
+
+
+def _c07_calls(fn, name):
+    return [n for n in ast.walk(fn) if isinstance(n, ast.Call) and attr_chain(n.func) == [name]]
+
+
+@fragment("CorrTimes")
+def frag_corrtimes(src):
+    rel = "oqupy/system_dynamics.py"
+    out = []
+    I = {"times": "Int", "max_step": "Int", "index": "Int", "index_start": "Int",
+         "index_end": "Int", "direction": "Int"}
+    F = {"times": "Flt", "times_0": "Flt", "times_1": "Flt", "start_time": "Flt", "dt": "Flt",
+         "max_step": "Int"}
+
+    # ---- _parse_times ---------------------------------------------------
+    fn = src.function(rel, "_parse_times")
+    if [a.arg for a in fn.args.args] != ["times", "max_step", "dt", "start_time"]:
+        raise Untranslatable("_parse_times: parameter list changed")
+    chain, els = _c07_isinstance_chain(fn, "times")
+    kinds = ["|".join(n) for n, _ in chain]
+    if kinds != ["int", "slice|list", "float", "tuple"]:
+        raise Untranslatable("_parse_times: branches are %s" % kinds)
+    if not _c07_raises(els, "TypeError"):
+        raise Untranslatable("_parse_times: the else branch does not raise TypeError")
+    last = fn.body[-1]
+    if not (isinstance(last, ast.Return) and isinstance(last.value, ast.Name)
+            and last.value.id == "ret_times"):
+        raise Untranslatable("_parse_times: does not end in `return ret_times`")
+    out.append("/-- %s:%d  _parse_times: order of the isinstance tests -/\n"
+               "def parse_branches : List String := %s\n" % (rel, fn.lineno, _c07_lstrs(kinds)))
+    # int
+    b = chain[0][1]
+    if len(b) != 2:
+        raise Untranslatable("_parse_times/int: unexpected statements")
+    g = _c07_guard(b[0], "_parse_times/int")
+    out.append(_c07_corr_def("int_out_of_bound", g, I, "Bool", ["times", "max_step"],
+                         "%s:%d  int branch raises IndexError when: %s" % (rel, g.lineno, ast.unparse(g))))
+    _c07_np_array_singleton(_c07_assign_to(b[1], "ret_times", "_parse_times/int"), "times", "_parse_times/int")
+    # slice | list
+    b = chain[1][1]
+    if not (len(b) == 1 and isinstance(b[0], ast.Try) and len(b[0].body) == 1
+            and len(b[0].handlers) == 1 and not b[0].orelse and not b[0].finalbody):
+        raise Untranslatable("_parse_times/slice|list: expected one try/except")
+    h = b[0].handlers[0]
+    if not (h.type is not None and attr_chain(h.type) == ["Exception"] and _c07_raises(h.body, "IndexError")):
+        raise Untranslatable("_parse_times/slice|list: handler is not `except Exception: raise IndexError`")
+    v = _c07_assign_to(b[0].body[0], "ret_times", "_parse_times/slice|list")
+    if not (isinstance(v, ast.Subscript) and _c07_arange1(v.value) is not None
+            and isinstance(v.slice, ast.Name) and v.slice.id == "times"):
+        raise Untranslatable("_parse_times/slice|list: expected np.arange(n)[times]")
+    out.append(_c07_corr_def("index_base_len", _c07_arange1(v.value), I, "Int", ["max_step"],
+                         "%s:%d  slice|list branch: ret_times = %s" % (rel, v.lineno, ast.unparse(v))))
+    # float
+    b = chain[2][1]
+    if len(b) != 3:
+        raise Untranslatable("_parse_times/float: unexpected statements")
+    v = _c07_assign_to(b[0], "index", "_parse_times/float")
+    out.append(_c07_corr_def("float_index", v, F, "Int", ["times", "start_time", "dt"],
+                         "%s:%d  float branch: index = %s" % (rel, v.lineno, ast.unparse(v))))
+    g = _c07_guard(b[1], "_parse_times/float")
+    out.append(_c07_corr_def("float_out_of_bound", g, I, "Bool", ["index", "max_step"],
+                         "%s:%d  float branch raises IndexError when: %s" % (rel, g.lineno, ast.unparse(g))))
+    _c07_np_array_singleton(_c07_assign_to(b[2], "ret_times", "_parse_times/float"), "index", "_parse_times/float")
+    # tuple (interval)
+    b = [s for s in chain[3][1] if not isinstance(s, ast.Assert)]
+    if len(b) != 6:
+        raise Untranslatable("_parse_times/tuple: unexpected statements")
+    v = _c07_assign_to(b[0], "index_start", "_parse_times/tuple")
+    out.append(_c07_corr_def("interval_index_start", v, F, "Int", ["times_0", "start_time", "dt"],
+                         "%s:%d  tuple branch: index_start = %s" % (rel, v.lineno, ast.unparse(v))))
+    g = _c07_guard(b[1], "_parse_times/tuple")
+    out.append(_c07_corr_def("interval_start_out_of_bound", g, I, "Bool", ["index_start", "max_step"],
+                         "%s:%d  raises IndexError when: %s" % (rel, g.lineno, ast.unparse(g))))
+    v = _c07_assign_to(b[2], "index_end", "_parse_times/tuple")
+    out.append(_c07_corr_def("interval_index_end", v, F, "Int", ["times_1", "start_time", "dt"],
+                         "%s:%d  tuple branch: index_end = %s" % (rel, v.lineno, ast.unparse(v))))
+    g = _c07_guard(b[3], "_parse_times/tuple")
+    out.append(_c07_corr_def("interval_end_out_of_bound", g, I, "Bool", ["index_end", "max_step"],
+                         "%s:%d  raises IndexError when: %s" % (rel, g.lineno, ast.unparse(g))))
+    v = _c07_assign_to(b[4], "direction", "_parse_times/tuple")
+    out.append(_c07_corr_def("interval_direction", v, I, "Int", ["index_start", "index_end"],
+                         "%s:%d  direction = %s" % (rel, v.lineno, ast.unparse(v))))
+    v = _c07_assign_to(b[5], "ret_times", "_parse_times/tuple")
+    abc_params = ["index_start", "index_end", "direction"]
+    if isinstance(v, ast.Subscript) and _c07_arange1(v.value) is not None \
+            and isinstance(v.slice, ast.Slice):
+        parts = [v.slice.lower, v.slice.upper, v.slice.step]
+        via_slice, base = True, _c07_arange1(v.value)
+    elif isinstance(v, ast.Call) and attr_chain(v.func) == ["np", "arange"] and len(v.args) == 3 \
+            and not v.keywords:
+        parts, via_slice, base = list(v.args), False, None
+    else:
+        raise Untranslatable("_parse_times/tuple: ret_times is neither np.arange(n)[a:b:c] "
+                             "nor np.arange(a, b, c)")
+    if any(p is None for p in parts):
+        raise Untranslatable("_parse_times/tuple: open-ended slice")
+    doc = "%s:%d  tuple branch: ret_times = %s" % (rel, v.lineno, ast.unparse(v))
+    out.append("/-- %s ;  true: a slice `[a:b:c]` of np.arange(interval_base_len), "
+               "false: np.arange(a, b, c) -/\ndef interval_via_slice : Bool := %s\n"
+               % (doc, "true" if via_slice else "false"))
+    if base is not None:
+        out.append(_c07_corr_def("interval_base_len", base, I, "Int", ["max_step"], doc))
+    else:
+        out.append("/-- unused: the interval is built by np.arange(a, b, c) -/\n"
+                   "def interval_base_len (max_step : Int) : Int := (0 : Int)\n")
+    for nm, p in zip("abc", parts):
+        out.append(_c07_corr_def("interval_" + nm, p, I, "Int", abc_params, doc))
+
+    # ---- compute_correlations_nt ----------------------------------------
+    fn = src.function(rel, "compute_correlations_nt")
+    # dt_ : which time step is used when `dt` is / is not given
+    ifs = [n for n in ast.walk(fn) if isinstance(n, ast.If) and ast.unparse(n.test) == "dt is None"]
+    if len(ifs) != 1:
+        raise Untranslatable("compute_correlations_nt: expected one `if dt is None`")
+
+    def dt_assign(stmts):
+        hits = [s for s in stmts if isinstance(s, ast.Assign) and len(s.targets) == 1
+                and isinstance(s.targets[0], ast.Name) and s.targets[0].id == "dt_"]
+        if len(hits) != 1:
+            raise Untranslatable("compute_correlations_nt: dt_ is not assigned once per branch")
+        return ast.unparse(hits[0].value)
+    if len(src.assignment(fn, "dt_")) != 2:
+        raise Untranslatable("compute_correlations_nt: dt_ assigned elsewhere")
+    out.append("/-- %s:%d  compute_correlations_nt: `dt_ = ..` when the argument dt is None / is given -/\n"
+               "def dt_when_none : String := %s\ndef dt_when_given : String := %s\n"
+               % (rel, ifs[0].lineno, _c07_lstr(dt_assign(ifs[0].body)), _c07_lstr(dt_assign(ifs[0].orelse))))
+    hits = src.assignment(fn, "max_step")
+    if len(hits) != 1:
+        raise Untranslatable("compute_correlations_nt: max_step")
+    out.append("/-- %s:%d -/\ndef max_step_source : String := %s\n"
+               % (rel, hits[0].lineno, _c07_lstr(ast.unparse(hits[0].value))))
+    pc = _c07_calls(fn, "_parse_times")
+    if len(pc) != 1 or pc[0].keywords:
+        raise Untranslatable("compute_correlations_nt: call of _parse_times")
+    out.append("/-- %s:%d  positional arguments of the call of _parse_times(times, max_step, dt, start_time) -/\n"
+               "def parse_call_args : List String := %s\n"
+               % (rel, pc[0].lineno, _c07_lstrs([ast.unparse(a) for a in pc[0].args])))
+    hits = src.assignment(fn, "times2")
+    if len(hits) != 1:
+        raise Untranslatable("compute_correlations_nt: times2")
+    tr = _C07Tr({"start_time": "Flt", "dt_": "Flt", "dt": "Flt", "times": "Int"})
+    t = tr.expr(hits[0].value)
+    dtvars = [x for x in tr.free if x not in ("start_time", "times")]
+    if len(dtvars) != 1 or t[1] != "Flt":
+        raise Untranslatable("compute_correlations_nt: times2 = %s" % ast.unparse(hits[0].value))
+    doc = "%s:%d  returned time axes: times2 = %s  (per element of `times`)" % (
+        rel, hits[0].lineno, ast.unparse(hits[0].value))
+    out.append(emit_def("ret_time", tr, t[0], "Flt", ["start_time", dtvars[0], "times"], doc))
+    out.append("/-- the time-step variable that labels the returned axes -/\n"
+               "def axes_dt_var : String := %s\n" % _c07_lstr(dtvars[0]))
+    # keyword arguments reaching the dynamics
+    hits = src.assignment(fn, "parameters")
+    if len(hits) != 1 or not isinstance(hits[0].value, ast.Dict) or not all(
+            isinstance(k, ast.Constant) and isinstance(k.value, str) for k in hits[0].value.keys):
+        raise Untranslatable("compute_correlations_nt: parameters dict")
+    pdict = [(k.value, ast.unparse(v)) for k, v in zip(hits[0].value.keys, hits[0].value.values)]
+    oc = _c07_calls(fn, "_compute_ordered_nt_correlations")
+    if len(oc) != 1:
+        raise Untranslatable("compute_correlations_nt: call of _compute_ordered_nt_correlations")
+    out.append("/-- %s:%d  keyword arguments (explicit, then the `parameters` dict) of the call of "
+               "_compute_ordered_nt_correlations, with their source expressions -/\n"
+               "def ordered_call_kwargs : List (String × String) := %s\n"
+               % (rel, oc[0].lineno, _c07_lpairs(_c07_kwargs(oc[0], {"parameters": pdict}))))
+    fo = src.function(rel, "_compute_ordered_nt_correlations")
+    names = [a.arg for a in fo.args.args]
+    defaults = dict(zip(names[len(names) - len(fo.args.defaults):],
+                        [ast.unparse(d) for d in fo.args.defaults]))
+    if "dt" not in names:
+        raise Untranslatable("_compute_ordered_nt_correlations has no parameter dt")
+    out.append("/-- %s:%d  default of parameter `dt` of _compute_ordered_nt_correlations "
+               "(\"\" = no default) -/\ndef ordered_dt_default : String := %s\n"
+               % (rel, fo.lineno, _c07_lstr(defaults.get("dt", ""))))
+    dc = _c07_calls(fo, "compute_dynamics")
+    if len(dc) != 1:
+        raise Untranslatable("_compute_ordered_nt_correlations: call of compute_dynamics")
+    out.append("/-- %s:%d  keyword arguments of the call of compute_dynamics -/\n"
+               "def dynamics_call_kwargs : List (String × String) := %s\n"
+               % (rel, dc[0].lineno, _c07_lpairs(_c07_kwargs(dc[0]))))
+    # the time-ordering test on the earlier times
+    conts = [n for n in ast.walk(fn) if isinstance(n, ast.If) and len(n.body) == 1
+             and isinstance(n.body[0], ast.Continue)]
+    tests = [ast.unparse(n.test) for n in conts]
+    ft_src = [ast.unparse(h.value) for h in src.assignment(fn, "ft")]
+    ck_src = [ast.unparse(h.value) for h in src.assignment(fn, "check")]
+    if ck_src != ["sorted(first_times)"]:
+        raise Untranslatable("compute_correlations_nt: check = %s" % ck_src)
+    if "not np.allclose(ft, check)" in tests and ft_src == ["np.array(first_times)"]:
+        order_check = "allclose"
+    elif "list(first_times) != check" in tests:
+        order_check = "exact"
+    else:
+        raise Untranslatable("compute_correlations_nt: time-ordering test %s" % tests)
+    out.append("/-- how `first_times` is compared with `sorted(first_times)`: "
+               "\"allclose\" (np.allclose, rtol 1e-5, atol 1e-8) or \"exact\" -/\n"
+               "def order_check : String := %s\n" % _c07_lstr(order_check))
+    hits = src.assignment(fn, "ft_max")
+    if [ast.unparse(h.value) for h in hits] != ["ft.max()"] or ft_src != ["np.array(first_times)"]:
+        raise Untranslatable("compute_correlations_nt: ft_max")
+    # which later times are kept, and which result indices they are written to
+    trig = [n for n in ast.walk(fn) if isinstance(n, ast.If) and isinstance(n.test, ast.Call)
+            and isinstance(n.test.func, ast.Attribute) and n.test.func.attr == "any"
+            and isinstance(n.test.func.value, ast.Compare)]
+    if len(trig) != 1:
+        raise Untranslatable("compute_correlations_nt: `if (<cmp>).any():`")
+    LT = {"last_times": "Int", "ft_max": "Int"}
+    cmp_ = trig[0].test.func.value
+    out.append(_c07_corr_def("last_drop_trigger", cmp_, LT, "Bool", ["ft_max", "last_times"],
+                         "%s:%d  later times are filtered when any of them satisfies: %s"
+                         % (rel, cmp_.lineno, ast.unparse(cmp_))))
+    body = trig[0].body
+    local = {}
+    for s in body:
+        if isinstance(s, ast.Assign) and len(s.targets) == 1 and isinstance(s.targets[0], ast.Name):
+            local[s.targets[0].id] = s.value
+    lt = local.get("lt")
+    if not (isinstance(lt, ast.Subscript) and isinstance(lt.value, ast.Name)
+            and lt.value.id == "last_times"):
+        raise Untranslatable("compute_correlations_nt: lt = last_times[..]")
+    mask = lt.slice
+    mask_name = None
+    if isinstance(mask, ast.Name) and isinstance(local.get(mask.id), ast.Compare):
+        mask_name, mask = mask.id, local[mask.id]
+    if not isinstance(mask, ast.Compare):
+        raise Untranslatable("compute_correlations_nt: lt is not selected by a comparison mask")
+    out.append(_c07_corr_def("last_keep", mask, LT, "Bool", ["ft_max", "last_times"],
+                         "%s:%d  the later times kept: %s" % (rel, mask.lineno, ast.unparse(mask))))
+    inds = local.get("inds")
+    if not (isinstance(inds, ast.Subscript) and ast.unparse(inds.value) == "sch_indices[i][-1]"):
+        raise Untranslatable("compute_correlations_nt: inds = sch_indices[i][-1][..]")
+    sel = inds.slice
+    if isinstance(sel, ast.Slice) and sel.upper is None and sel.step is None \
+            and sel.lower is not None and ast.unparse(sel.lower) == "-len(lt)":
+        by_mask = False
+    elif (mask_name is not None and isinstance(sel, ast.Name) and sel.id == mask_name) \
+            or (isinstance(sel, ast.Compare) and ast.dump(sel) == ast.dump(mask)):
+        by_mask = True
+    else:
+        raise Untranslatable("compute_correlations_nt: inds = %s" % ast.unparse(inds))
+    srcs = [ast.unparse(local.get(k)) if k in local else None for k in ("last_times",)]
+    if srcs != ["lt"] or ast.unparse(body[-1]) != "sch_indices[i][-1] = inds":
+        raise Untranslatable("compute_correlations_nt: filter block changed")
+    out.append("/-- %s:%d  inds = %s ;  true: the result indices of the kept later times are "
+               "selected by the same mask, false: the trailing len(lt) indices -/\n"
+               "def last_index_by_mask : Bool := %s\n"
+               % (rel, inds.lineno, ast.unparse(inds), "true" if by_mask else "false"))
+    wb = [n for n in ast.walk(fn) if isinstance(n, ast.Assign)
+          and ast.unparse(n.targets[0]) == "ret_correlations[sch_indices[i]]"]
+    if len(wb) != 1 or ast.unparse(wb[0].value) != "corr":
+        raise Untranslatable("compute_correlations_nt: write-back")
+
+    # ---- _schedule_nt_correlations ---------------------------------------
+    fs = src.function(rel, "_schedule_nt_correlations")
+    want = {"indices": "[np.arange(len(op_time)) for op_time in ops_times]",
+            "sched_ind": "list(product(*indices[0:-1]))",
+            "sched": "list(product(*ops_times[0:-1]))"}
+    for k, w in want.items():
+        got = [ast.unparse(h.value) for h in src.assignment(fs, k)]
+        if got != [w]:
+            raise Untranslatable("_schedule_nt_correlations: %s = %s" % (k, got))
+    apps = sorted(ast.unparse(n) for n in ast.walk(fs) if isinstance(n, ast.Call)
+                  and isinstance(n.func, ast.Attribute) and n.func.attr == "append")
+    if apps != ["sched[i].append(ops_times[-1])", "sched_ind[i].append(indices[-1])"]:
+        raise Untranslatable("_schedule_nt_correlations: appended items %s" % apps)
+    out.append("/-- %s:%d  _schedule_nt_correlations has the shape the model assumes: two parallel "
+               "itertools.product over all but the last operator (times / arange indices), the last "
+               "operator's whole time array and index array appended to every entry -/\n"
+               "def schedule_shape_ok : Bool := true\n" % (rel, fs.lineno))
+
+    # ---- compute_correlations (two-time wrapper) -------------------------
+    fc = src.function(rel, "compute_correlations")
+    tabs = {}
+    for s in fc.body:
+        if isinstance(s, ast.If) and isinstance(s.test, ast.Compare) \
+                and ast.unparse(s.test.left) == "time_order" \
+                and isinstance(s.test.comparators[0], ast.Constant):
+            mode = s.test.comparators[0].value
+            for a in s.body:
+                if isinstance(a, ast.Assign) and isinstance(a.targets[0], ast.Name) \
+                        and isinstance(a.value, ast.List):
+                    tabs[(mode, a.targets[0].id)] = [
+                        e.value if isinstance(e, ast.Constant) else ast.unparse(e)
+                        for e in a.value.elts]
+                elif isinstance(a, ast.Assign) and ast.unparse(a.targets[0]) == "corr":
+                    tabs[(mode, "post")] = ast.unparse(a.value)
+    for mode in ("ordered", "anti"):
+        for k in ("ops_order", "operators", "ops_times"):
+            if (mode, k) not in tabs:
+                raise Untranslatable("compute_correlations: %s/%s" % (mode, k))
+            out.append("/-- %s  compute_correlations, time_order == %r: %s -/\n"
+                       "def %s_%s : List String := %s\n"
+                       % (rel, mode, k, mode, k, _c07_lstrs(tabs[(mode, k)])))
+    if ("anti", "post") not in tabs or ("ordered", "post") in tabs:
+        raise Untranslatable("compute_correlations: post-processing")
+    out.append("/-- %s  compute_correlations, time_order == 'anti': corr = .. applied to the result "
+               "(times list, array) of compute_correlations_nt -/\n"
+               "def anti_post : String := %s\n" % (rel, _c07_lstr(tabs[("anti", "post")])))
+    nc = _c07_calls(fc, "compute_correlations_nt")
+    if len(nc) != 1:
+        raise Untranslatable("compute_correlations: call of compute_correlations_nt")
+    out.append("/-- %s:%d  keyword arguments of the call of compute_correlations_nt -/\n"
+               "def nt_call_kwargs : List (String × String) := %s\n"
+               % (rel, nc[0].lineno, _c07_lpairs(_c07_kwargs(nc[0]))))
+    return "\n".join(out)
+
+
+# ---------------------------------------------------------------------------
+# LoopOrder  (C14):  order of the state-changing statements inside the backend
+# step / compute methods, as lists of micro-op tags, and the loop conditions of
+# the compute() methods with a fixed end.
+#
+# Grammar understood by the order extractor (anything else -> Untranslatable):
+#   statements : docstring | assignment | augmented assignment of the step
+#                counter | expression statement (a call) | return | if/elif/else
+#                (forks into paths) | for (body may only mutate the network) |
+#                try/except BaseException|Exception: <restore_*(...) calls>; raise
+#   calls      : classified by the tables of the `OrderSpec` of the class:
+#                user callables (attributes that hold user-supplied functions),
+#                mutating methods / methods of the tensor-network attributes,
+#                control application, result recording, and a whitelist of pure
+#                functions.  An unknown call is an error.
+#   step values: `self._step`, `self.step`, locals bound to them, +/- integer
+#                constants, `int(..)`, `0 - x`  (affine forms a*entry + b).
+# ---------------------------------------------------------------------------
+
+LOOPORDER_PRELUDE = """/-- `a * entry + b`: a step value relative to the step counter at entry of the method -/
+structure Aff where
+  a : Int
+  b : Int
+deriving DecidableEq, Repr
+
+def Aff.eval (x : Aff) (entry : Int) : Int := x.a * entry + x.b
+
+/-- Micro-operations of a backend step, in source order. -/
+inductive MicroOp where
+  /-- the step counter is assigned (`self._step += 1` is `setStep ⟨1, 1⟩`) -/
+  | setStep (v : Aff)
+  /-- the step counter is set to the configured start step (`self._step = self._start_step`) -/
+  | initStep
+  /-- user-supplied callable number `i` is invoked with step argument `v` (may raise) -/
+  | callUser (i : Nat) (v : Aff)
+  /-- the persistent tensor network is changed in place; `v` is the step argument of the call
+      (or the value of the step counter at that point if the call has none) -/
+  | mutate (v : Aff)
+  /-- the persistent tensor network is (re)built from the supplied initial data -/
+  | loadNet
+  /-- control operations registered for step `v` are applied (`post` = after the measurement) -/
+  | control (post : Bool) (v : Aff)
+  /-- an attribute of the object other than the counter / the network is assigned -/
+  | store
+  /-- a result is appended to the recorded results -/
+  | record
+  /-- the result containers are (re)created empty -/
+  | initResults
+  /-- start / end of a `try` block whose handler restores the tensor networks saved
+      immediately before the block and re-raises -/
+  | tryBegin
+  | tryEnd
+deriving DecidableEq, Repr
+
+"""
+
+
+class Aff:
+    def __init__(self, a, b):
+        self.a, self.b = a, b
+
+    def lean(self):
+        return "⟨%d, %d⟩" % (self.a, self.b)
+
+    def key(self):
+        return (self.a, self.b)
+
+
+class OrderSpec:
+    def __init__(self, user=None, user_lists=None, net=(), mut_methods=(), step_arg_methods=(),
+                 backend_lists=(), control_methods=(), record_methods=(), record_attrs=(),
+                 init_results_methods=(), pure=(), pure_methods=(), start_attr=None,
+                 net_constructors=()):
+        self.user = user or {}                # self.<attr>(...)  -> callUser id
+        self.user_lists = user_lists or {}    # for f in self.<attr>: f(...) -> callUser id
+        self.net = set(net)                   # attributes holding the persistent tensor network
+        self.mut_methods = set(mut_methods)   # self.<m>(...) / backend.<m>(...) mutating the network
+        self.step_arg_methods = set(step_arg_methods)   # ... whose 1st argument is a step value
+        self.backend_lists = set(backend_lists)         # self.<attr>: list of sub-backends
+        self.control_methods = set(control_methods)
+        self.record_methods = set(record_methods)
+        self.record_attrs = set(record_attrs)           # self.<attr>.append(...) records a result
+        self.init_results_methods = set(init_results_methods)
+        self.pure = set(pure)                 # dotted names of pure functions
+        self.pure_methods = set(pure_methods)  # method names that are pure on any receiver
+        self.start_attr = start_attr
+        self.net_constructors = set(net_constructors)   # classes whose instance is a fresh network
+
+
+PURE_COMMON = {"int", "len", "range", "bool", "zip", "copy", "deepcopy", "reversed", "list",
+               "np.dot", "np.array", "swapaxes", "expand_dims", "na.NodeArray", "na.split",
+               "na.join", "util.add_singleton", "util.create_delta", "create_delta"}
+PURE_METHODS_COMMON = {"sum", "copy", "readout", "reshape"}
+
+
+class _Path:
+    def __init__(self, ops=None, env=None, cur=None, done=False, bound=None):
+        self.ops = list(ops or [])
+        self.env = dict(env or {})
+        self.cur = cur                       # Aff of the step counter now (None = unknown)
+        self.done = done
+        self.bound = dict(bound or {})       # local name -> ("user", id) | ("backend",)
+
+    def clone(self):
+        return _Path(self.ops, self.env, self.cur, self.done, self.bound)
+
+    def key(self):
+        return (tuple(self.ops), tuple(sorted((k, v.key()) for k, v in self.env.items())),
+                self.cur.key() if self.cur else None, self.done,
+                tuple(sorted(self.bound.items())))
+
+
+class OrderExtractor:
+    def __init__(self, spec, where):
+        self.spec = spec
+        self.where = where
+
+    def fail(self, node, msg):
+        raise Untranslatable("%s:%s: %s" % (self.where, getattr(node, "lineno", "?"), msg))
+
+    # -- step values -----------------------------------------------------
+    def aff(self, e, p):
+        """affine value of an expression in terms of the entry counter, or None"""
+        if isinstance(e, ast.Constant) and isinstance(e.value, int) and not isinstance(e.value, bool):
+            return Aff(0, e.value)
+        if isinstance(e, ast.Name):
+            return p.env.get(e.id)
+        if isinstance(e, ast.Attribute):
+            ch = attr_chain(e)
+            if ch in (["self", "_step"], ["self", "step"]):
+                return p.cur
+            return None
+        if isinstance(e, ast.Call) and attr_chain(e.func) == ["int"] and len(e.args) == 1:
+            return self.aff(e.args[0], p)
+        if isinstance(e, ast.UnaryOp) and isinstance(e.op, ast.USub):
+            x = self.aff(e.operand, p)
+            return Aff(-x.a, -x.b) if x else None
+        if isinstance(e, ast.BinOp) and isinstance(e.op, (ast.Add, ast.Sub)):
+            x, y = self.aff(e.left, p), self.aff(e.right, p)
+            if x is None or y is None:
+                return None
+            s = 1 if isinstance(e.op, ast.Add) else -1
+            return Aff(x.a + s * y.a, x.b + s * y.b)
+        return None
+
+    def step_arg(self, call, p):
+        """the step argument of a call: keyword `step=` or the first positional argument"""
+        for kw in call.keywords:
+            if kw.arg in ("step", "current_step"):
+                return self.aff(kw.value, p)
+        if call.args and not isinstance(call.args[0], ast.Starred):
+            return self.aff(call.args[0], p)
+        return None
+
+    # -- expressions -----------------------------------------------------
+    def expr_ops(self, e, p):
+        """append the micro-ops caused by evaluating `e` (in evaluation order) to path p"""
+        sp = self.spec
+        if e is None or isinstance(e, (ast.Constant, ast.Name)):
+            return
+        if isinstance(e, ast.Attribute):
+            return self.expr_ops(e.value, p)
+        if isinstance(e, ast.Starred):
+            return self.expr_ops(e.value, p)
+        if isinstance(e, (ast.Tuple, ast.List)):
+            for x in e.elts:
+                self.expr_ops(x, p)
+            return
+        if isinstance(e, ast.Dict):
+            for x in list(e.keys) + list(e.values):
+                self.expr_ops(x, p)
+            return
+        if isinstance(e, ast.Subscript):
+            self.expr_ops(e.value, p)
+            return self.expr_ops(e.slice, p)
+        if isinstance(e, ast.Slice):
+            for x in (e.lower, e.upper, e.step):
+                self.expr_ops(x, p)
+            return
+        if isinstance(e, (ast.BinOp,)):
+            self.expr_ops(e.left, p)
+            return self.expr_ops(e.right, p)
+        if isinstance(e, ast.UnaryOp):
+            return self.expr_ops(e.operand, p)
+        if isinstance(e, ast.Compare):
+            self.expr_ops(e.left, p)
+            for x in e.comparators:
+                self.expr_ops(x, p)
+            return
+        if isinstance(e, ast.BoolOp):
+            n0 = len(p.ops)
+            for x in e.values:
+                self.expr_ops(x, p)
+            if len(p.ops) != n0:
+                self.fail(e, "state-changing call inside and/or")
+            return
+        if isinstance(e, ast.ListComp):
+            if len(e.generators) != 1 or e.generators[0].ifs:
+                self.fail(e, "comprehension shape")
+            g = e.generators[0]
+            self.expr_ops(g.iter, p)
+            saved = dict(p.bound)
+            self.bind_loop(g.target, g.iter, p)
+            # the element expression is evaluated once per item: emitted once
+            self.expr_ops(e.elt, p)
+            p.bound = saved
+            return
+        if isinstance(e, ast.Call):
+            return self.call_ops(e, p)
+        self.fail(e, "expression " + type(e).__name__)
+
+    def bind_loop(self, target, it, p):
+        """for <target> in zip(self.a, self.b) / in self.a : remember what the names hold"""
+        sp = self.spec
+        names = [target] if isinstance(target, ast.Name) else \
+            (list(target.elts) if isinstance(target, ast.Tuple) else None)
+        if names is None or not all(isinstance(n, ast.Name) for n in names):
+            self.fail(target, "loop target")
+        if isinstance(it, ast.Call) and attr_chain(it.func) == ["zip"]:
+            srcs = it.args
+        else:
+            srcs = [it]
+        if len(srcs) != len(names):
+            # e.g. `for x in <expr>` with a tuple target: nothing to bind
+            srcs = [None] * len(names)
+        for n, s in zip(names, srcs):
+            p.bound.pop(n.id, None)
+            p.env.pop(n.id, None)
+            ch = attr_chain(s) if s is not None else None
+            if ch and len(ch) == 2 and ch[0] == "self":
+                if ch[1] in sp.user_lists:
+                    p.bound[n.id] = ("user", sp.user_lists[ch[1]])
+                elif ch[1] in sp.backend_lists:
+                    p.bound[n.id] = ("backend", 0)
+
+    def call_ops(self, e, p):
+        sp = self.spec
+        ch = attr_chain(e.func)
+        # receiver expression that is itself a call, e.g.  self._mps.pop(0).sum(1)
+        if ch is None:
+            if isinstance(e.func, ast.Attribute):
+                self.expr_ops(e.func.value, p)
+                for a in e.args:
+                    self.expr_ops(a, p)
+                for kw in e.keywords:
+                    self.expr_ops(kw.value, p)
+                if e.func.attr in sp.pure_methods:
+                    return
+            self.fail(e, "call of " + ast.unparse(e.func)[:60])
+        for a in e.args:
+            self.expr_ops(a, p)
+        for kw in e.keywords:
+            self.expr_ops(kw.value, p)
+        name = ".".join(ch)
+
+        def need(v, what):
+            if v is None:
+                self.fail(e, "step argument of %s is not an affine step value" % what)
+            return v
+        # user callables
+        if len(ch) == 2 and ch[0] == "self" and ch[1] in sp.user:
+            p.ops.append(("callUser", sp.user[ch[1]], need(self.step_arg(e, p), name).key()))
+            return
+        if len(ch) == 1 and p.bound.get(ch[0], (None,))[0] == "user":
+            p.ops.append(("callUser", p.bound[ch[0]][1], need(self.step_arg(e, p), name).key()))
+            return
+        # mutation of the persistent tensor network
+        is_self_m = len(ch) == 2 and ch[0] == "self"
+        is_backend_m = len(ch) == 2 and p.bound.get(ch[0], (None,))[0] == "backend"
+        if (is_self_m or is_backend_m) and ch[1] in sp.mut_methods:
+            v = need(self.step_arg(e, p), name) if ch[1] in sp.step_arg_methods \
+                else need(p.cur, "the step counter")
+            p.ops.append(("mutate", v.key()))
+            return
+        if len(ch) == 3 and ch[0] == "self" and ch[1] in sp.net:
+            if ch[2] in sp.pure_methods:
+                return
+            v = need(self.step_arg(e, p), name) if ch[2] in sp.step_arg_methods \
+                else need(p.cur, "the step counter")
+            p.ops.append(("mutate", v.key()))
+            return
+        if is_self_m and ch[1] in sp.control_methods:
+            post = [kw.value for kw in e.keywords if kw.arg == "post"]
+            if len(post) != 1 or not isinstance(post[0], ast.Constant) \
+                    or not isinstance(post[0].value, bool):
+                self.fail(e, "control call without constant post=")
+            p.ops.append(("control", post[0].value, need(self.step_arg(e, p), name).key()))
+            return
+        if is_self_m and ch[1] in sp.record_methods:
+            p.ops.append(("record",))
+            return
+        if is_self_m and ch[1] in sp.init_results_methods:
+            p.ops.append(("initResults",))
+            return
+        if len(ch) == 3 and ch[0] == "self" and ch[1] in sp.record_attrs and ch[2] == "append":
+            p.ops.append(("record",))
+            return
+        if name in sp.pure or (len(ch) >= 2 and ch[-1] in sp.pure_methods):
+            return
+        self.fail(e, "unknown call " + name)
+
+    # -- statements ------------------------------------------------------
+    def assign_target(self, t, value, p, node):
+        sp = self.spec
+        if isinstance(t, ast.Name):
+            p.bound.pop(t.id, None)
+            v = self.aff(value, p) if value is not None else None
+            if v is not None:
+                p.env[t.id] = v
+            else:
+                p.env.pop(t.id, None)
+            return
+        if isinstance(t, (ast.Tuple, ast.List)):
+            for x in t.elts:
+                self.assign_target(x, None, p, node)
+            return
+        if isinstance(t, ast.Subscript):
+            base = attr_chain(t.value)
+            if base and len(base) == 2 and base[0] == "self" and base[1] in sp.net:
+                if p.cur is None:
+                    self.fail(node, "network changed while the step counter is unknown")
+                p.ops.append(("mutate", p.cur.key()))
+                return
+            self.fail(node, "assignment to " + ast.unparse(t))
+        if isinstance(t, ast.Attribute):
+            ch = attr_chain(t)
+            if not ch or len(ch) != 2 or ch[0] != "self":
+                self.fail(node, "assignment to " + ast.unparse(t))
+            if ch[1] == "_step":
+                v = self.aff(value, p) if value is not None else None
+                if v is not None:
+                    p.ops.append(("setStep", v.key()))
+                    p.cur = v
+                    return
+                vch = attr_chain(value) if value is not None else None
+                if sp.start_attr and vch == ["self", sp.start_attr]:
+                    p.ops.append(("initStep",))
+                    p.cur = Aff(1, 0)          # entry is re-based to the start step
+                    return
+                self.fail(node, "step counter assigned a non-affine value")
+            if ch[1] in sp.net:
+                if isinstance(value, ast.Call) and attr_chain(value.func) \
+                        and ".".join(attr_chain(value.func)) in sp.net_constructors:
+                    p.ops.append(("loadNet",))
+                elif p.cur is None:
+                    self.fail(node, "network changed while the step counter is unknown")
+                else:
+                    p.ops.append(("mutate", p.cur.key()))
+                return
+            p.ops.append(("store",))
+            return
+        self.fail(node, "assignment target " + type(t).__name__)
+
+    def stmts(self, body, paths):
+        for s in body:
+            live = [p for p in paths if not p.done]
+            dead = [p for p in paths if p.done]
+            if not live:
+                break
+            paths = dead + self.stmt(s, live)
+            uniq = {}
+            for p in paths:
+                uniq.setdefault(p.key(), p)
+            paths = list(uniq.values())
+        return paths
+
+    def stmt(self, s, paths):
+        sp = self.spec
+        if isinstance(s, ast.Expr):
+            if isinstance(s.value, ast.Constant):
+                return paths
+            for p in paths:
+                self.expr_ops(s.value, p)
+            return paths
+        if isinstance(s, ast.Pass):
+            return paths
+        if isinstance(s, ast.Assign):
+            for p in paths:
+                self.expr_ops(s.value, p)
+                for t in s.targets:
+                    self.assign_target(t, s.value, p, s)
+            return paths
+        if isinstance(s, ast.AugAssign):
+            for p in paths:
+                self.expr_ops(s.value, p)
+                ch = attr_chain(s.target)
+                if ch == ["self", "_step"] and isinstance(s.op, (ast.Add, ast.Sub)):
+                    fake = ast.BinOp(left=s.target, op=s.op, right=s.value)
+                    self.assign_target(s.target, fake, p, s)
+                else:
+                    self.fail(s, "augmented assignment to " + ast.unparse(s.target))
+            return paths
+        if isinstance(s, ast.Return):
+            for p in paths:
+                n0 = len(p.ops)
+                self.expr_ops(s.value, p)
+                if len(p.ops) != n0:
+                    self.fail(s, "state-changing call in return expression")
+                p.done = True
+            return paths
+        if isinstance(s, ast.If):
+            out = []
+            for p in paths:
+                n0 = len(p.ops)
+                self.expr_ops(s.test, p)
+                if len(p.ops) != n0:
+                    self.fail(s, "state-changing call in if-test")
+                out += self.stmts(s.body, [p.clone()])
+                out += self.stmts(s.orelse, [p.clone()])
+            return out
+        if isinstance(s, ast.For):
+            out = []
+            for p in paths:
+                self.expr_ops(s.iter, p)
+                q = p.clone()
+                q.ops = []
+                self.bind_loop(s.target, s.iter, q)
+                res = self.stmts(s.body, [q])
+                if len(res) != 1 or res[0].done or s.orelse:
+                    self.fail(s, "for-loop with branching body")
+                body_ops = res[0].ops
+                if any(o[0] != "mutate" for o in body_ops) or \
+                        (res[0].cur.key() if res[0].cur else None) != (p.cur.key() if p.cur else None):
+                    self.fail(s, "for-loop body does more than mutate the network")
+                # zero or more iterations of network mutation: recorded once
+                p.ops += body_ops
+                out.append(p)
+            return out
+        if isinstance(s, ast.Try):
+            if len(s.handlers) != 1 or s.orelse or s.finalbody:
+                self.fail(s, "try shape")
+            h = s.handlers[0]
+            if not (isinstance(h.type, ast.Name) and h.type.id in ("BaseException", "Exception")):
+                self.fail(s, "handler does not catch Exception/BaseException")
+            if not h.body or not (isinstance(h.body[-1], ast.Raise) and h.body[-1].exc is None):
+                self.fail(s, "handler does not re-raise")
+            restores = 0
+            for n in ast.walk(ast.Module(body=h.body[:-1], type_ignores=[])):
+                if isinstance(n, ast.Call):
+                    chn = attr_chain(n.func)
+                    if chn and chn[-1].startswith("restore_"):
+                        restores += 1
+                    elif chn and ".".join(chn) in ("zip",):
+                        pass
+                    else:
+                        self.fail(s, "handler calls " + ast.unparse(n.func))
+                if isinstance(n, (ast.Assign, ast.AugAssign)):
+                    self.fail(s, "handler assigns")
+            if restores != 1:
+                self.fail(s, "handler does not restore the saved networks exactly once")
+            out = []
+            for p in paths:
+                if not p.ops or p.ops[-1] != ("saveNet",):
+                    self.fail(s, "try block is not immediately preceded by saving the networks")
+                p.ops[-1] = ("tryBegin",)
+                res = self.stmts(s.body, [p])
+                for r in res:
+                    if r.done:
+                        self.fail(s, "return inside try")
+                    r.ops.append(("tryEnd",))
+                out += res
+            return out
+        self.fail(s, "statement " + type(s).__name__)
+
+    def run(self, fn, entry_known=True):
+        p = _Path(cur=Aff(1, 0) if entry_known else None)
+        paths = self.stmts(fn.body, [p])
+        outs = []
+        for q in paths:
+            if ("saveNet",) in q.ops:
+                self.fail(fn, "networks saved without a protecting try block")
+            ops = []
+            for o in q.ops:                     # adjacent identical mutations count once
+                if ops and o[0] == "mutate" and ops[-1] == o:
+                    continue
+                ops.append(o)
+            if ops not in outs:
+                outs.append(ops)
+        return outs
+
+
+def _lean_op(o):
+    def aff(k):
+        return "⟨%d, %d⟩" % k
+    t = o[0]
+    if t in ("setStep", "mutate"):
+        return ".%s %s" % (t, aff(o[1]))
+    if t == "callUser":
+        return ".callUser %d %s" % (o[1], aff(o[2]))
+    if t == "control":
+        return ".control %s %s" % ("true" if o[1] else "false", aff(o[2]))
+    return "." + t
+
+
+def _lean_ops(ops):
+    return "[" + ", ".join(_lean_op(o) for o in ops) + "]"
+
+
+class SaveAwareExtractor(OrderExtractor):
+    """`x = [backend.copy_networks() for backend in self._backend_list]` directly before a
+    try block marks the start of a protected region."""
+
+    def stmt(self, s, paths):
+        if isinstance(s, ast.Assign) and len(s.targets) == 1 and isinstance(s.targets[0], ast.Name):
+            calls = [n for n in ast.walk(s.value) if isinstance(n, ast.Call)
+                     and attr_chain(n.func) and attr_chain(n.func)[-1].startswith("copy_networks")]
+            if calls:
+                others = [n for n in ast.walk(s.value) if isinstance(n, ast.Call)
+                          and n not in calls and attr_chain(n.func) != ["zip"]]
+                if others or len(calls) != 1:
+                    self.fail(s, "network snapshot mixed with other calls")
+                for p in paths:
+                    p.ops.append(("saveNet",))
+                return paths
+        return super().stmt(s, paths)
+
+
+def _single(paths, what):
+    if len(paths) != 1:
+        raise Untranslatable("%s: expected straight-line code, found %d paths" % (what, len(paths)))
+    return paths[0]
+
+
+def _cond_translator(types):
+    return FnTranslator(types)
+
+
+def _loop_shape(src, rel, qual, step_call="compute_step"):
+    """Locate the stepping loop of a compute() method.  Returns (init_guard_ok, loop node)."""
+    fn = src.function(rel, qual)
+    loops = [n for n in ast.walk(fn) if isinstance(n, (ast.While, ast.For))
+             and any(isinstance(c, ast.Call) and attr_chain(c.func)
+                     and attr_chain(c.func)[-1] == step_call for c in ast.walk(n))]
+    if len(loops) != 1:
+        raise Untranslatable("%s: expected exactly one loop calling %s" % (qual, step_call))
+    # the initialisation guard:  if <...>.step is None: <...>.initialize()/initialise()
+    guards = [n for n in fn.body if isinstance(n, ast.If)
+              and isinstance(n.test, ast.Compare) and len(n.test.ops) == 1
+              and isinstance(n.test.ops[0], ast.Is)
+              and isinstance(n.test.comparators[0], ast.Constant)
+              and n.test.comparators[0].value is None
+              and (attr_chain(n.test.left) or [""])[-1] == "step"
+              and any(isinstance(c, ast.Call) and attr_chain(c.func)
+                      and attr_chain(c.func)[-1] in ("initialize", "initialise")
+                      for c in ast.walk(n))]
+    if len(guards) != 1 or fn.body.index(guards[0]) > [i for i, n in enumerate(fn.body)
+                                                       if loops[0] in list(ast.walk(n))][0]:
+        raise Untranslatable("%s: no `if step is None: initialize()` guard before the loop" % qual)
+    return fn, loops[0]
+
+
+def _is_step_call(e, step_call="compute_step"):
+    return isinstance(e, ast.Call) and attr_chain(e.func) is not None \
+        and attr_chain(e.func)[-1] == step_call and not e.args and not e.keywords
+
+
+def _pure_progress_body(stmts, qual):
+    """the rest of a loop body may only report progress"""
+    for s in stmts:
+        ok = isinstance(s, ast.Expr) and isinstance(s.value, ast.Call) \
+            and (attr_chain(s.value.func) or [""])[0] == "prog_bar"
+        if not ok:
+            raise Untranslatable("%s: loop body does more than step and report progress: %s"
+                                 % (qual, ast.unparse(s)[:60]))
+
+
+@fragment("LoopOrder")
+def frag_looporder(src):
+    out = [LOOPORDER_PRELUDE]
+    TB = "oqupy/backends/tempo_backend.py"
+
+    def emit_ops(name, ops, doc):
+        out.append("/-- %s -/\ndef %s : List MicroOp :=\n  %s\n" % (doc, name, _lean_ops(ops)))
+
+    def emit_paths(name, paths, doc):
+        out.append("/-- %s -/\ndef %s : List (List MicroOp) :=\n  [%s]\n"
+                   % (doc, name, ",\n   ".join(_lean_ops(p) for p in paths)))
+
+    # --- TempoBackend.compute_step --------------------------------------
+    spec = OrderSpec(user={"_propagators": 0}, net={"_mps", "_mpo"},
+                     mut_methods={"compute_system_step"},
+                     step_arg_methods={"compute_system_step"},
+                     pure=PURE_COMMON, pure_methods=PURE_METHODS_COMMON)
+    fn = src.function(TB, "TempoBackend.compute_step")
+    ops = _single(OrderExtractor(spec, "TempoBackend.compute_step").run(fn), "TempoBackend.compute_step")
+    emit_ops("tempo_compute_step", ops,
+             "%s:%d  TempoBackend.compute_step; user callable 0 = self._propagators "
+             "(system Hamiltonian / rates / Lindblad operators)" % (TB, fn.lineno))
+
+    # --- MeanFieldTempoBackend.compute_step -------------------------------
+    spec = OrderSpec(user={"_compute_field_derivative": 0, "_compute_field": 2},
+                     user_lists={"_propagators_list": 1}, net={"_mps", "_mpo"},
+                     mut_methods={"compute_system_step"},
+                     step_arg_methods={"compute_system_step"},
+                     backend_lists={"_backend_list"},
+                     pure=PURE_COMMON, pure_methods=PURE_METHODS_COMMON)
+    fn = src.function(TB, "MeanFieldTempoBackend.compute_step")
+    ops = _single(SaveAwareExtractor(spec, "MeanFieldTempoBackend.compute_step").run(fn),
+                  "MeanFieldTempoBackend.compute_step")
+    emit_ops("mft_compute_step", ops,
+             "%s:%d  MeanFieldTempoBackend.compute_step; user callables: 0 = "
+             "self._compute_field_derivative (field_eom), 1 = the propagators of each system "
+             "(Hamiltonians), 2 = self._compute_field (field_eom, twice)" % (TB, fn.lineno))
+
+    # --- initial step counters ---------------------------------------------
+    for rel, qual, name in ((TB, "TempoBackend.initialize", "tempo_init_step"),
+                            (TB, "MeanFieldTempoBackend.initialize", "mft_init_step"),
+                            (TB, "TIBaseBackend.initialise", "gibbs_init_step"),
+                            ("oqupy/backends/pt_tempo_backend.py", "PtTempoBackend.initialize",
+                             "pt_init_step")):
+        fn = src.function(rel, qual)
+        hits = src.assignment(fn, "self._step")
+        vals = [h.value for h in hits]
+        if qual == "TIBaseBackend.initialise":
+            # the branch that builds the network from scratch (mps is None)
+            vals = [v for v in vals if isinstance(v, ast.Constant)]
+        if len(vals) != 1 or not isinstance(vals[0], ast.Constant) or not isinstance(vals[0].value, int):
+            raise Untranslatable("%s: step counter is not initialised with one integer constant" % qual)
+        out.append("/-- %s:%d  %s:  self._step = %d -/\ndef %s : Int := %d\n"
+                   % (rel, hits[0].lineno, qual, vals[0].value, name, vals[0].value))
+
+    # --- TIBaseBackend.compute_step (Gibbs) --------------------------------
+    spec = OrderSpec(net={"_mps"}, mut_methods={"_contract", "_truncate_left", "_truncate_right"},
+                     record_attrs={"data"}, pure=PURE_COMMON, pure_methods=PURE_METHODS_COMMON)
+    fn = src.function(TB, "TIBaseBackend.compute_step")
+    paths = OrderExtractor(spec, "TIBaseBackend.compute_step").run(fn)
+    emit_paths("gibbs_step_paths", paths,
+               "%s:%d  TIBaseBackend.compute_step (one list per control-flow path)" % (TB, fn.lineno))
+
+    # --- GibbsTempo.compute: number of steps and label of each new state -----
+    ty = {"n_steps": "Int", "step": "Int", "num_steps": "Int", "tmp_end_step": "Int",
+          "end_step": "Int", "len_process_tensor": "Int", "step_is_none": "Bool"}
+    fn, loop = _loop_shape(src, "oqupy/tempo.py", "GibbsTempo.compute")
+    if not (isinstance(loop, ast.For) and isinstance(loop.iter, ast.Call)
+            and attr_chain(loop.iter.func) == ["range"] and len(loop.iter.args) == 1
+            and isinstance(loop.iter.args[0], ast.Name)):
+        raise Untranslatable("GibbsTempo.compute: loop is not `for i in range(<name>)`")
+    cnt = loop.iter.args[0].id
+    t, _ = translate_expr(src, "oqupy/tempo.py", "GibbsTempo.compute", cnt, "gibbs_num_step",
+                          ty, "Int", ["n_steps", "step"])
+    out.append(t)
+    adds = [c for c in ast.walk(loop) if isinstance(c, ast.Call) and attr_chain(c.func)
+            and attr_chain(c.func)[-2:] == ["_dynamics", "add"]]
+    steps = [s for s in loop.body if isinstance(s, ast.Assign) and _is_step_call(s.value)]
+    if len(adds) != 1 or len(steps) != 1 or not isinstance(steps[0].targets[0], ast.Tuple):
+        raise Untranslatable("GibbsTempo.compute: loop body shape")
+    tcall = adds[0].args[0]
+    if not (isinstance(tcall, ast.Call) and attr_chain(tcall.func) == ["self", "_time"]):
+        raise Untranslatable("GibbsTempo.compute: label is not self._time(..)")
+    tr = FnTranslator(ty)
+    lab = tr.expr(tcall.args[0])
+    out.append(emit_def("gibbs_label_index", tr, lab[0], "Int", ["step"],
+                        "oqupy/tempo.py:%d  GibbsTempo.compute: index labelling the state returned "
+                        "by compute_step (step = the returned counter): self._time(%s)"
+                        % (tcall.lineno, ast.unparse(tcall.args[0]))))
+
+    # --- PtTempoBackend.compute_step + PtTempo.compute / get_process_tensor ----
+    PB = "oqupy/backends/pt_tempo_backend.py"
+    spec = OrderSpec(user={"_influence": 0}, net={"_mps", "_mpo"},
+                     pure=PURE_COMMON, pure_methods=PURE_METHODS_COMMON)
+    fn = src.function(PB, "PtTempoBackend.compute_step")
+    paths = OrderExtractor(spec, "PtTempoBackend.compute_step").run(fn)
+    emit_paths("pt_step_paths", paths,
+               "%s:%d  PtTempoBackend.compute_step (one list per control-flow path); user "
+               "callable 0 = self._influence (bath correlations)" % (PB, fn.lineno))
+    rets = [n for n in ast.walk(fn) if isinstance(n, ast.Return)]
+    if len(rets) != 1 or fn.body[-1] is not rets[0]:
+        raise Untranslatable("PtTempoBackend.compute_step: not exactly one trailing return")
+    tr = FnTranslator(ty)
+    r = tr.expr(rets[0].value)
+    if r[1] != "Bool":
+        raise Untranslatable("PtTempoBackend.compute_step does not return a comparison")
+    ret_term = r[0]
+    out.append(emit_def("pt_step_returns", tr, ret_term, "Bool", ["step", "num_steps"],
+                        "%s:%d  value returned by PtTempoBackend.compute_step (step = counter after "
+                        "the step): %s" % (PB, rets[0].lineno, ast.unparse(rets[0].value))))
+
+    fn, loop = _loop_shape(src, "oqupy/pt_tempo.py", "PtTempo.compute")
+    if not isinstance(loop, ast.While) or loop.orelse:
+        raise Untranslatable("PtTempo.compute: stepping loop is not a while loop")
+    test = loop.test
+    pre, post_is_ret, body = "true", False, loop.body
+    if _is_step_call(test):                       # while compute_step(): ...
+        post_is_ret = True
+    elif isinstance(test, ast.BoolOp) and isinstance(test.op, ast.And) and len(test.values) == 2 \
+            and _is_step_call(test.values[1]):    # while <cond> and compute_step(): ...
+        tr = FnTranslator(ty)
+        pre = tr.expr(test.values[0])[0]
+        post_is_ret = True
+    else:                                         # while <cond>: compute_step(); ...
+        tr = FnTranslator(ty)
+        c = tr.expr(test)
+        if c[1] != "Bool" or not (body and isinstance(body[0], ast.Expr) and _is_step_call(body[0].value)):
+            raise Untranslatable("PtTempo.compute: while-loop shape")
+        pre, body = c[0], body[1:]
+    _pure_progress_body(body, "PtTempo.compute")
+    out.append("/-- oqupy/pt_tempo.py:%d  PtTempo.compute: condition checked BEFORE a step is taken "
+               "(`true` when the loop test is the step call itself): while %s -/\n"
+               "def pt_loop_pre (step : Int) (num_steps : Int) : Bool :=\n  let _unused := (step, num_steps)\n  %s\n"
+               % (loop.lineno, ast.unparse(test), pre))
+    out.append("/-- does the loop continue after a step that returned `r`? -/\n"
+               "def pt_loop_post (r : Bool) : Bool :=\n  %s\n" % ("r" if post_is_ret else "let _unused := r\n  true"))
+
+    fn = src.function("oqupy/pt_tempo.py", "PtTempo.get_process_tensor")
+    ifs = [s for s in fn.body if isinstance(s, ast.If)]
+    if len(ifs) != 2 or any(i.orelse for i in ifs) or not isinstance(fn.body[-1], ast.Return) \
+            or attr_chain(fn.body[-1].value) != ["self", "_process_tensor"]:
+        raise Untranslatable("PtTempo.get_process_tensor: shape")
+
+    def only_call(i, meth):
+        return len(i.body) == 1 and isinstance(i.body[0], ast.Expr) \
+            and isinstance(i.body[0].value, ast.Call) \
+            and (attr_chain(i.body[0].value.func) or [""])[-1] == meth
+    if not only_call(ifs[0], "compute") or not only_call(ifs[1], "update_process_tensor"):
+        raise Untranslatable("PtTempo.get_process_tensor: guarded calls")
+    tr = FnTranslator(ty)
+    c = tr.expr(ifs[0].test)
+    out.append(emit_def("pt_get_needs_compute", tr, c[0], "Bool", ["step_is_none", "step", "num_steps"],
+                        "oqupy/pt_tempo.py:%d  PtTempo.get_process_tensor: compute() is called iff %s"
+                        % (ifs[0].lineno, ast.unparse(ifs[0].test))))
+    tr = FnTranslator(ty)
+    c = tr.expr(ifs[1].test)
+    out.append(emit_def("pt_get_needs_update", tr, c[0], "Bool", ["len_process_tensor", "num_steps"],
+                        "oqupy/pt_tempo.py:%d  PtTempo.get_process_tensor: the process tensor is "
+                        "filled iff %s" % (ifs[1].lineno, ast.unparse(ifs[1].test))))
+
+    # --- PtTebd ---------------------------------------------------------------
+    TE = "oqupy/pt_tebd.py"
+    spec = OrderSpec(net={"_t_mps"}, step_arg_methods={"apply_process_tensors"},
+                     control_methods={"_apply_controls"}, record_methods={"_append_results"},
+                     init_results_methods={"_init_results"}, start_attr="_start_step",
+                     net_constructors={"PtTebdBackend"},
+                     pure=PURE_COMMON | {"compute_tebd_propagator", "PtTebdBackend"},
+                     pure_methods=PURE_METHODS_COMMON)
+    fn = src.function(TE, "PtTebd.compute_step")
+    ops = _single(OrderExtractor(spec, "PtTebd.compute_step").run(fn), "PtTebd.compute_step")
+    emit_ops("tebd_compute_step", ops, "%s:%d  PtTebd.compute_step" % (TE, fn.lineno))
+    fn = src.function(TE, "PtTebd.initialize")
+    ops = _single(OrderExtractor(spec, "PtTebd.initialize").run(fn, entry_known=False),
+                  "PtTebd.initialize")
+    emit_ops("tebd_initialize", ops,
+             "%s:%d  PtTebd.initialize (after `initStep` step values are relative to the start step)"
+             % (TE, fn.lineno))
+    fn, loop = _loop_shape(src, TE, "PtTebd.compute")
+    if not isinstance(loop, ast.While) or loop.orelse or not loop.body \
+            or not (isinstance(loop.body[0], ast.Expr) and _is_step_call(loop.body[0].value)):
+        raise Untranslatable("PtTebd.compute: while-loop shape")
+    _pure_progress_body(loop.body[1:], "PtTebd.compute")
+    # the bound the loop compares with must be the integer value of the argument
+    tr = FnTranslator(ty)
+    c = tr.expr(loop.test)
+    if c[1] != "Bool":
+        raise Untranslatable("PtTebd.compute: loop test")
+    out.append(emit_def("tebd_loop_cond", tr, c[0], "Bool", ["step", "tmp_end_step"],
+                        "%s:%d  PtTebd.compute: while %s" % (TE, loop.lineno, ast.unparse(loop.test))))
+    return "\n".join(out)
+
+
+# ---------------------------------------------------------------------------
+# CacheKeys  (C20):  memoised methods (cache key vs. attributes read), how Bath
+# copies its correlations, and what the anchored code does to user arrays
+# ---------------------------------------------------------------------------
+#
+# Grammar understood (anything else -> Untranslatable):
+#  * memoisation: `@lru_cache(...)` directly on a method (key = the method's
+#    parameters), or a module-level decorator of the shape
+#        def deco(method):
+#            @lru_cache(...)
+#            def cached(self, extra, *args, **kwargs): return method(self, *args, **kwargs)
+#            @wraps(method)
+#            def wrapper(self, *args, **kwargs):
+#                return cached(self, self.<keyfn>(), *args, **kwargs)
+#            return wrapper
+#    (key = the method's parameters + the attributes `self.<keyfn>()` returns:
+#    `return (self.a, self.b, ...)` or `return super().<keyfn>() + (self.c, ...)`).
+#  * attributes read: every `self.X` load in the body (nested defs/lambdas
+#    included).  X resolves to (1) an instance attribute stored by an `__init__`
+#    of the MRO: a plain value -> read `X`; a lambda (directly, through a local
+#    name, through `np.vectorize(..)`, or handed to `super().__init__`) -> the
+#    lambda's own reads with kind `closure` (its `self` is the object whose
+#    `__init__` ran), and its free variables that are `__init__` parameters with
+#    kind `frozen`;  (2) a method/property of the MRO -> that method's reads
+#    (memoised callees are recorded in `calls`).
+#  * array sites: a declared list of (file, function, user array) entry points;
+#    inside the function the array is followed through  x.reshape(..),
+#    x.shape = .., np.array(x, dtype=..[, order='C']),
+#    copy(x)/cp.copy(x)/np.copy(x), x.copy(), x.setflags(write=False),
+#    x[..] = .., x op= ..  and plain aliases (np.asarray / np.ascontiguousarray may
+#    return their argument itself depending on its layout: not modelled, refused).  Every `.shape = ` store in the
+#    anchored files must belong to a declared site or to INTERNAL_SHAPE_STORES.
+
+C20_MEMO_FILES = ["oqupy/bath_correlations.py", "oqupy/system.py"]
+C20_ANCHORS = ["oqupy/bath_correlations.py", "oqupy/bath.py", "oqupy/system.py",
+               "oqupy/system_dynamics.py", "oqupy/gradient.py", "oqupy/util.py",
+               "oqupy/tempo.py", "oqupy/mps_mpo.py"]
+
+C20_TYPES = r'''
+/-- how a method body gets at an attribute: `self.a` of the object the method is
+    called on, `self.a` inside a lambda stored by `__init__` (its `self` is the
+    object whose `__init__` ran, also in copies), or a constructor argument the
+    lambda captured by value -/
+inductive ReadKind where
+  | direct | closure | frozen
+  deriving DecidableEq, Repr
+
+structure Read where
+  attr : String
+  kind : ReadKind
+  deriving DecidableEq, Repr
+
+/-- one public or memoised method of one concrete class -/
+structure MemoSite where
+  cls : String
+  method : String
+  line : Nat
+  cached : Bool
+  /-- parameters of the memoised function besides `self` (part of the key) -/
+  keyParams : List String
+  /-- attributes of `self` whose current values are part of the key -/
+  keyAttrs : List String
+  /-- attributes read by the body, transitively -/
+  reads : List Read
+  /-- memoised methods of `self` the body calls -/
+  calls : List String
+  deriving DecidableEq, Repr
+
+inductive CopyKind where
+  | alias | shallow | deep
+  deriving DecidableEq, Repr
+
+structure CopySite where
+  cls : String
+  method : String
+  line : Nat
+  kind : CopyKind
+  deriving DecidableEq, Repr
+
+/-- a dimension expression of a shape written in the source -/
+inductive Dim where
+  | lit (n : Nat)
+  | inp (k : Nat)            -- `shape[k]` of the user array
+  | par (name : String)      -- an integer variable of the function
+  | mul (a b : Dim)
+  | pow (a : Dim) (n : Nat)
+  deriving DecidableEq, Repr
+
+inductive ShapeItem where
+  | dim (d : Dim)
+  | rep (d : Dim) (count : String)     -- `[d] * count`
+  deriving DecidableEq, Repr
+
+inductive ShapeE where
+  | items (l : List ShapeItem)
+  | inputInsertOne (indexPar : String)   -- `l = list(x.shape); l.insert(index, 1)`
+  deriving DecidableEq, Repr
+
+/-- what the code does with the user array (object 0) and arrays derived from it;
+    creating operations append a new object -/
+inductive AOp where
+  | reshape (src : Nat) (shape : ShapeE)     -- y = x.reshape(shape)
+  | setShape (tgt : Nat) (shape : ShapeE)    -- x.shape = shape
+  | npArray (src : Nat)                      -- y = np.array(x, dtype=..)   (copy, order 'K')
+  | npArrayC (src : Nat)                     -- y = np.array(x, dtype=.., order='C') / x.copy()
+  | copyK (src : Nat)                        -- y = copy.copy(x) / np.copy(x)
+  | setReadonly (tgt : Nat)                  -- x.setflags(write=False)
+  | writeData (tgt : Nat)                    -- x[..] = .. / x op= ..
+  deriving DecidableEq, Repr
+
+structure ArraySite where
+  file : String
+  func : String
+  param : String
+  line : Nat
+  /-- rank of the user array on this path (0: any rank) -/
+  rank : Nat
+  ops : List AOp
+  deriving DecidableEq, Repr
+'''
+
+
+def _lstr(s):
+    return '"' + s.replace("\\", "\\\\").replace('"', '\\"') + '"'
+
+
+def _llist(items):
+    return "[" + ", ".join(items) + "]"
+
+
+class _ClassTable:
+    """classes of one module with single-inheritance MRO inside the module"""
+
+    def __init__(self, src, rel):
+        self.rel = rel
+        self.tree = src.tree(rel)
+        self.classes = {c.name: c for c in self.tree.body if isinstance(c, ast.ClassDef)}
+        self.functions = {f.name: f for f in self.tree.body if isinstance(f, ast.FunctionDef)}
+
+    def mro(self, name):
+        out = []
+        while name in self.classes:
+            out.append(self.classes[name])
+            bases = [b.id for b in self.classes[name].bases if isinstance(b, ast.Name)]
+            if len(self.classes[name].bases) > 1:
+                raise Untranslatable("multiple inheritance in class " + name)
+            name = bases[0] if bases else None
+        return out
+
+    def method(self, cls, name, after=None):
+        """(defining class, FunctionDef) following the MRO (starting after class
+        `after` for super() calls); None if the module does not define it"""
+        chain = self.mro(cls)
+        if after is not None:
+            names = [c.name for c in chain]
+            chain = chain[names.index(after) + 1:]
+        for c in chain:
+            for n in c.body:
+                if isinstance(n, ast.FunctionDef) and n.name == name:
+                    return c.name, n
+        return None
+
+
+def _is_lru_cache(dec):
+    f = dec.func if isinstance(dec, ast.Call) else dec
+    ch = attr_chain(f)
+    return ch is not None and ch[-1] == "lru_cache"
+
+
+def _param_names(fn):
+    a = fn.args
+    if a.posonlyargs or a.kwonlyargs:
+        raise Untranslatable("positional-only/keyword-only parameters in " + fn.name)
+    names = [x.arg for x in a.args]
+    if not names or names[0] != "self":
+        raise Untranslatable("memoised function %s is not a method" % fn.name)
+    return names[1:], a.vararg is not None, a.kwarg is not None
+
+
+def _key_decorator(tab, name):
+    """Recognise the `cached on self.<keyfn>()` decorator; returns keyfn name."""
+    fn = tab.functions.get(name)
+    if fn is None or len(fn.args.args) != 1:
+        return None
+    meth = fn.args.args[0].arg
+    inner = [n for n in fn.body if isinstance(n, ast.FunctionDef)]
+    if len(inner) != 2:
+        raise Untranslatable("decorator %s: expected a memoised function and a wrapper" % name)
+    cached, wrapper = inner
+    if not any(_is_lru_cache(d) for d in cached.decorator_list):
+        raise Untranslatable("decorator %s: first inner function is not lru_cache'd" % name)
+    ca = cached.args
+    if [x.arg for x in ca.args][:1] != ["self"] or len(ca.args) != 2 \
+            or ca.vararg is None or ca.kwarg is None:
+        raise Untranslatable("decorator %s: memoised function must be (self, key, *args, **kwargs)" % name)
+    body = [s for s in cached.body if not (isinstance(s, ast.Expr) and isinstance(s.value, ast.Constant))]
+    want = "%s(self, *%s, **%s)" % (meth, ca.vararg.arg, ca.kwarg.arg)
+    if len(body) != 1 or not isinstance(body[0], ast.Return) or ast.unparse(body[0].value) != want:
+        raise Untranslatable("decorator %s: memoised function must return %s" % (name, want))
+    wa = wrapper.args
+    if [x.arg for x in wa.args] != ["self"] or wa.vararg is None or wa.kwarg is None:
+        raise Untranslatable("decorator %s: wrapper must be (self, *args, **kwargs)" % name)
+    body = [s for s in wrapper.body if not (isinstance(s, ast.Expr) and isinstance(s.value, ast.Constant))]
+    if len(body) != 1 or not isinstance(body[0], ast.Return) or not isinstance(body[0].value, ast.Call):
+        raise Untranslatable("decorator %s: wrapper must return one call" % name)
+    call = body[0].value
+    if not (isinstance(call.func, ast.Name) and call.func.id == cached.name and len(call.args) == 3
+            and ast.unparse(call.args[0]) == "self" and isinstance(call.args[2], ast.Starred)
+            and ast.unparse(call.args[2].value) == wa.vararg.arg and len(call.keywords) == 1
+            and call.keywords[0].arg is None and ast.unparse(call.keywords[0].value) == wa.kwarg.arg):
+        raise Untranslatable("decorator %s: wrapper must call %s(self, self.<key>(), *args, **kwargs)"
+                             % (name, cached.name))
+    k = call.args[1]
+    ch = attr_chain(k.func) if isinstance(k, ast.Call) else None
+    if ch is None or len(ch) != 2 or ch[0] != "self" or k.args or k.keywords:
+        raise Untranslatable("decorator %s: the key must be self.<method>()" % name)
+    last = fn.body[-1]
+    if not (isinstance(last, ast.Return) and isinstance(last.value, ast.Name)
+            and last.value.id == wrapper.name):
+        raise Untranslatable("decorator %s must return its wrapper" % name)
+    return ch[1]
+
+
+class _MemoAnalysis:
+    def __init__(self, tab):
+        self.tab = tab
+        self._stored = {}
+
+    # -- what __init__ stores on the instance --------------------------------
+    def stored(self, cls):
+        """attr -> ('value', None) | ('closure', lambda node, class whose __init__ made it)"""
+        if cls not in self._stored:
+            st = {}
+            hit = self.tab.method(cls, "__init__")
+            if hit is not None:
+                self._run_init(hit[0], hit[1], {}, st)
+            self._stored[cls] = st
+        return self._stored[cls]
+
+    def _run_init(self, owner, fn, given, st):
+        """given: parameter name -> ('closure', node, owner) for arguments that are lambdas"""
+        loc = dict(given)
+
+        def classify(e):
+            if isinstance(e, ast.Lambda):
+                return ("closure", e, owner)
+            if isinstance(e, ast.Name):
+                return loc.get(e.id, ("value", None, None))
+            if isinstance(e, ast.Call) and len(e.args) == 1 and not e.keywords:
+                inner = classify(e.args[0])          # np.vectorize(f), float(x)
+                if inner[0] == "closure":
+                    return inner
+            return ("value", None, None)
+
+        def walk(stmts):
+            for s in stmts:
+                if isinstance(s, ast.Assign) and len(s.targets) == 1:
+                    t = s.targets[0]
+                    if isinstance(t, ast.Name):
+                        loc[t.id] = classify(s.value)
+                    elif isinstance(t, ast.Attribute) and attr_chain(t) and attr_chain(t)[0] == "self" \
+                            and len(attr_chain(t)) == 2:
+                        st[t.attr] = classify(s.value)
+                    elif isinstance(t, ast.Tuple):
+                        for el in t.elts:
+                            ch = attr_chain(el)
+                            if ch and ch[0] == "self" and len(ch) == 2:
+                                st[ch[1]] = ("value", None, None)
+                elif isinstance(s, ast.Delete):
+                    for t in s.targets:
+                        ch = attr_chain(t)
+                        if ch and ch[0] == "self" and len(ch) == 2:
+                            st.pop(ch[1], None)
+                elif isinstance(s, ast.Try):
+                    walk(s.body); [walk(h.body) for h in s.handlers]; walk(s.orelse); walk(s.finalbody)
+                elif isinstance(s, ast.If):
+                    walk(s.body); walk(s.orelse)
+                elif isinstance(s, ast.Expr) and isinstance(s.value, ast.Call):
+                    c = s.value
+                    if ast.unparse(c.func) == "super().__init__":
+                        nxt = self.tab.method(owner, "__init__", after=owner)
+                        if nxt is None:
+                            continue              # base class outside the module (BaseAPIClass)
+                        pnames = [a.arg for a in nxt[1].args.args][1:]
+                        given2 = {}
+                        for p, a in zip(pnames, c.args):
+                            given2[p] = classify(a)
+                        for kw in c.keywords:
+                            if kw.arg is None:
+                                raise Untranslatable("**kwargs in super().__init__ of " + owner)
+                            given2[kw.arg] = classify(kw.value)
+                        given2 = {k: v for k, v in given2.items() if v[0] == "closure"}
+                        self._run_init(nxt[0], nxt[1], given2, st)
+        walk(fn.body)
+
+    # -- reads ---------------------------------------------------------------
+    def reads_of_method(self, cls, name, kind="direct", stack=()):
+        hit = self.tab.method(cls, name)
+        if hit is None:
+            return [(name, kind)], []
+        return self.reads_of_node(cls, hit[1], kind, stack + ((cls, name, kind),), defcls=hit[0])
+
+    def reads_of_node(self, cls, node, kind, stack, defcls=None, init_params=()):
+        """(reads, memoised callees) of a FunctionDef/Lambda body evaluated with
+        `self` an instance of `cls`"""
+        reads, calls = [], []
+
+        def add(r):
+            if r not in reads:
+                reads.append(r)
+
+        def merge(r2, c2):
+            for r in r2:
+                add(r)
+            for c in c2:
+                if c not in calls:
+                    calls.append(c)
+
+        body = node.body if isinstance(node.body, list) else [node.body]
+        where = "%s.%s" % (cls, getattr(node, "name", "<lambda>"))
+        for b in body:
+            parents = {}
+            for n in ast.walk(b):
+                for ch in ast.iter_child_nodes(n):
+                    parents[ch] = n
+            for n in ast.walk(b):
+                if isinstance(n, ast.Name) and n.id == "self":
+                    par = parents.get(n)
+                    if not (isinstance(par, ast.Attribute) and par.value is n):
+                        raise Untranslatable("%s uses `self` other than as self.<attr>" % where)
+                    if not isinstance(par.ctx, ast.Load):
+                        raise Untranslatable("%s assigns self.%s" % (where, par.attr))
+                if isinstance(n, ast.Call) and ast.unparse(n.func).startswith("super()."):
+                    nxt = self.tab.method(cls, n.func.attr, after=defcls)
+                    if nxt is not None:
+                        merge(*self.reads_of_node(cls, nxt[1], kind, stack, defcls=nxt[0]))
+                if not (isinstance(n, ast.Attribute) and isinstance(n.value, ast.Name)
+                        and n.value.id == "self"):
+                    continue
+                x = n.attr
+                st = self.stored(cls).get(x)
+                if st is not None and st[0] == "closure":
+                    # a lambda stored by `owner.__init__`: its `self` is the constructed object
+                    if (cls, x, "closure") in stack:
+                        continue
+                    lam, owner = st[1], st[2]
+                    ifn = [m for m in self.tab.classes[owner].body
+                           if isinstance(m, ast.FunctionDef) and m.name == "__init__"][0]
+                    iparams = [a.arg for a in ifn.args.args][1:]
+                    merge(*self.reads_of_node(cls, lam, "closure", stack + ((cls, x, "closure"),),
+                                              init_params=iparams))
+                elif st is not None:
+                    add((x, kind))
+                else:
+                    hit = self.tab.method(cls, x)
+                    if hit is None:
+                        add((x, kind))            # attribute of a base class outside the module
+                        continue
+                    if (cls, x, kind) in stack:
+                        continue
+                    if self.memo_info(cls, x) is not None and kind == "direct" and x not in calls:
+                        calls.append(x)
+                    merge(*self.reads_of_method(cls, x, kind, stack))
+        if init_params:
+            lam_args = {a.arg for a in node.args.args}
+            for b in body:
+                for n in ast.walk(b):
+                    if isinstance(n, ast.Name) and isinstance(n.ctx, ast.Load) \
+                            and n.id in init_params and n.id not in lam_args:
+                        add((n.id, "frozen"))
+        return reads, calls
+
+    # -- memoisation ---------------------------------------------------------
+    def memo_info(self, cls, name):
+        """None | (keyParams, keyAttrs) for method `name` of class `cls`"""
+        hit = self.tab.method(cls, name)
+        if hit is None:
+            return None
+        fn = hit[1]
+        for d in fn.decorator_list:
+            if _is_lru_cache(d):
+                params, va, kw = _param_names(fn)
+                if va or kw:
+                    raise Untranslatable("*args/**kwargs in memoised method " + name)
+                return params, []
+            if isinstance(d, ast.Name) and d.id in self.tab.functions:
+                keyfn = _key_decorator(self.tab, d.id)
+                if keyfn is not None:
+                    params, va, kw = _param_names(fn)
+                    return params, self.key_attrs(cls, keyfn)
+        return None
+
+    def key_attrs(self, cls, keyfn, after=None):
+        hit = self.tab.method(cls, keyfn, after=after)
+        if hit is None:
+            raise Untranslatable("class %s has no %s()" % (cls, keyfn))
+        body = [s for s in hit[1].body
+                if not (isinstance(s, ast.Expr) and isinstance(s.value, ast.Constant))]
+        if len(body) != 1 or not isinstance(body[0], ast.Return):
+            raise Untranslatable("%s.%s must be a single return" % (hit[0], keyfn))
+
+        def tup(e):
+            if isinstance(e, ast.Tuple):
+                out = []
+                for el in e.elts:
+                    ch = attr_chain(el)
+                    if ch is None or len(ch) != 2 or ch[0] != "self":
+                        raise Untranslatable("%s.%s: key element %s is not self.<attr>"
+                                             % (hit[0], keyfn, ast.unparse(el)))
+                    out.append(ch[1])
+                return out
+            if isinstance(e, ast.BinOp) and isinstance(e.op, ast.Add):
+                return tup(e.left) + tup(e.right)
+            if isinstance(e, ast.Call) and ast.unparse(e.func) == "super().%s" % keyfn \
+                    and not e.args and not e.keywords:
+                return self.key_attrs(cls, keyfn, after=hit[0])
+            raise Untranslatable("%s.%s: cannot read key expression %s"
+                                 % (hit[0], keyfn, ast.unparse(e)))
+        attrs = tup(body[0].value)
+        # a key attribute that is a method of the class (bound method object) stands for
+        # the attributes that method reads only if they are listed too: keep the name
+        return attrs
+
+
+def _c20_memo_sites(src):
+    # `name` / `description`: settable properties of BaseAPIClass
+    sites, closures, public = [], [], ["name", "description"]
+    for rel in C20_MEMO_FILES:
+        tab = _ClassTable(src, rel)
+        an = _MemoAnalysis(tab)
+        for cname, cnode in tab.classes.items():
+            chain = tab.mro(cname)
+            seen = set()
+            has_memo = False
+            cand = []
+            for c in chain:
+                for m in c.body:
+                    if isinstance(m, ast.FunctionDef) and m.name not in seen:
+                        seen.add(m.name)
+                        cand.append(m.name)
+            memo = {m: an.memo_info(cname, m) for m in cand}
+            has_memo = any(v is not None for v in memo.values())
+            if not has_memo:
+                continue
+            for m in cand:
+                if memo[m] is None and (m.startswith("_") or
+                                        any(isinstance(d, ast.Name) and d.id == "property" or
+                                            isinstance(d, ast.Attribute)
+                                            for d in tab.method(cname, m)[1].decorator_list)):
+                    continue
+                dcls, fn = tab.method(cname, m)
+                reads, calls = an.reads_of_method(cname, m)
+                if memo[m] is None and not reads:
+                    continue                      # abstract / parameter-free method
+                if memo[m] is not None:
+                    calls = [c for c in calls if c != m]
+                kp, ka = memo[m] if memo[m] is not None else ([], [])
+                sites.append((cname, m, fn.lineno, memo[m] is not None, kp, ka, reads, calls))
+            for attr, v in sorted(an.stored(cname).items()):
+                if v[0] == "closure":
+                    closures.append((cname, attr, v[2], v[1].lineno))
+                if not attr.startswith("_") and attr not in public:
+                    public.append(attr)
+    return sites, closures, public
+
+
+def _c20_copy_sites(src):
+    tab = _ClassTable(src, "oqupy/bath.py")
+    tree = tab.tree
+    kinds = {}
+    for n in tree.body:
+        if isinstance(n, ast.ImportFrom) and n.module == "copy":
+            for a in n.names:
+                kinds[a.asname or a.name] = {"copy": "shallow", "deepcopy": "deep"}.get(a.name)
+    out = []
+    bath = tab.classes.get("Bath")
+    if bath is None:
+        raise Untranslatable("class Bath not found")
+
+    def kind_of(e, what):
+        if isinstance(e, ast.Call) and isinstance(e.func, ast.Name) and e.func.id in kinds \
+                and len(e.args) == 1 and ast.unparse(e.args[0]) == what:
+            return kinds[e.func.id]
+        if ast.unparse(e) == what:
+            return "alias"
+        raise Untranslatable("Bath: cannot read how %s is copied: %s" % (what, ast.unparse(e)))
+
+    init = tab.method("Bath", "__init__")[1]
+    hits = [n for n in ast.walk(init) if isinstance(n, ast.Assign) and len(n.targets) == 1
+            and ast.unparse(n.targets[0]) == "self._correlations"]
+    if len(hits) != 1:
+        raise Untranslatable("Bath.__init__: expected one assignment to self._correlations")
+    out.append(("Bath", "__init__", hits[0].lineno, kind_of(hits[0].value, "correlations")))
+    prop = tab.method("Bath", "correlations")
+    if prop is None:
+        raise Untranslatable("Bath.correlations not found")
+    rets = [n for n in ast.walk(prop[1]) if isinstance(n, ast.Return)]
+    if len(rets) != 1:
+        raise Untranslatable("Bath.correlations: expected one return")
+    out.append(("Bath", "correlations", rets[0].lineno, kind_of(rets[0].value, "self._correlations")))
+    return out
+
+
+# ---- array sites ----------------------------------------------------------
+
+# (file, function, user array (parameter, `self._attr`, or `for <var> in <param>`), loop var)
+C20_ARRAY_ENTRIES = [
+    ("oqupy/system.py", "_check_hamiltonian", "hamiltonian", None),
+    ("oqupy/system.py", "_check_gammas_lindblad_operators", "lindblad_operators", "lindblad_operator"),
+    ("oqupy/system.py", "SystemChain.add_site_hamiltonian", "hamiltonian", None),
+    ("oqupy/system.py", "SystemChain.add_site_liouvillian", "liouvillian", None),
+    ("oqupy/system.py", "SystemChain.add_site_dissipation", "lindblad_operator", None),
+    ("oqupy/system.py", "SystemChain.add_nn_hamiltonian", "hamiltonian_l", None),
+    ("oqupy/system.py", "SystemChain.add_nn_hamiltonian", "hamiltonian_r", None),
+    ("oqupy/system.py", "SystemChain.add_nn_liouvillian", "liouvillian_l_r", None),
+    ("oqupy/system.py", "SystemChain.add_nn_dissipation", "lindblad_operator_l", None),
+    ("oqupy/system.py", "SystemChain.add_nn_dissipation", "lindblad_operator_r", None),
+    ("oqupy/bath.py", "Bath.__init__", "coupling_operator", None),
+    ("oqupy/system_dynamics.py", "compute_dynamics", "initial_state", None),
+    ("oqupy/system_dynamics.py", "compute_dynamics_with_field", "initial_state_list", "initial_state"),
+    ("oqupy/gradient.py", "compute_gradient_and_dynamics", "initial_state", None),
+    ("oqupy/gradient.py", "compute_gradient_and_dynamics", "target_derivative", None),
+    ("oqupy/util.py", "add_singleton", "tensor", None),
+    ("oqupy/tempo.py", "Tempo._prepare_backend", "self._initial_state", None),
+    ("oqupy/mps_mpo.py", "Gate.__init__", "tensors", "tensor"),
+    ("oqupy/mps_mpo.py", "AugmentedMPS.__init__", "gammas", "g"),
+    ("oqupy/mps_mpo.py", "AugmentedMPS.__init__", "lambdas", "l"),
+]
+
+# `.shape = ` stores on arrays that are not user input: (file, function) -> why
+C20_INTERNAL_SHAPE_STORES = {
+    ("oqupy/mps_mpo.py", "compute_nn_gate"):
+        "operand is the fresh result of linalg.expm; the store only splits axes",
+}
+
+
+class _ArrayFlow:
+    """Follow one user array through one function body (see grammar above)."""
+
+    def __init__(self, rel, qual, fn, var, rank_branch=None):
+        self.rel, self.qual, self.fn, self.var = rel, qual, fn, var
+        self.names = {var: 0}        # python name (or 'self._x') -> object index
+        self.nobj = 1
+        self.ops = []
+        self.first_line = None
+        self.shape_vars = {}         # name -> object whose (input-equal) shape it holds
+        self.rank_vars = set()
+        self.insert_lists = {}       # name -> index parameter once `.insert(index, 1)` was seen
+        self.list_of_shape = set()   # names holding list(x.shape)
+        self.rank_branch = rank_branch
+        self.ranks_seen = []
+        self.notes = []
+
+    # -- expressions -----------------------------------------------------
+    def obj_of(self, e):
+        if isinstance(e, ast.Name):
+            return self.names.get(e.id)
+        ch = attr_chain(e) if isinstance(e, ast.Attribute) else None
+        if ch is not None:
+            return self.names.get(".".join(ch))
+        return None
+
+    def dim(self, e):
+        if isinstance(e, ast.Constant) and isinstance(e.value, int) and e.value >= 0:
+            return "(.lit %d)" % e.value
+        if isinstance(e, ast.Name):
+            return "(.par %s)" % _lstr(e.id)
+        if isinstance(e, ast.Subscript) and isinstance(e.value, ast.Name) \
+                and e.value.id in self.shape_vars and isinstance(e.slice, ast.Constant) \
+                and isinstance(e.slice.value, int) and e.slice.value >= 0:
+            return "(.inp %d)" % e.slice.value
+        if isinstance(e, ast.BinOp) and isinstance(e.op, ast.Mult):
+            return "(.mul %s %s)" % (self.dim(e.left), self.dim(e.right))
+        if isinstance(e, ast.BinOp) and isinstance(e.op, ast.Pow) \
+                and isinstance(e.right, ast.Constant) and isinstance(e.right.value, int):
+            return "(.pow %s %d)" % (self.dim(e.left), e.right.value)
+        raise Untranslatable("%s:%s: dimension expression %s" % (self.rel, self.qual, ast.unparse(e)))
+
+    def items(self, e):
+        if isinstance(e, (ast.Tuple, ast.List)):
+            return ["(.dim %s)" % self.dim(x) for x in e.elts]
+        if isinstance(e, ast.BinOp) and isinstance(e.op, ast.Add):
+            return self.items(e.left) + self.items(e.right)
+        if isinstance(e, ast.BinOp) and isinstance(e.op, ast.Mult) \
+                and isinstance(e.left, ast.List) and len(e.left.elts) == 1 \
+                and isinstance(e.right, ast.Name):
+            return ["(.rep %s %s)" % (self.dim(e.left.elts[0]), _lstr(e.right.id))]
+        if isinstance(e, ast.Call) and isinstance(e.func, ast.Name) and e.func.id in ("tuple", "list") \
+                and len(e.args) == 1:
+            return self.items(e.args[0])
+        raise Untranslatable("%s:%s: shape expression %s" % (self.rel, self.qual, ast.unparse(e)))
+
+    def shape(self, args):
+        """shape argument(s) of reshape / right-hand side of `.shape =`"""
+        if len(args) == 1:
+            e = args[0]
+            if isinstance(e, ast.Call) and isinstance(e.func, ast.Name) and e.func.id == "tuple" \
+                    and len(e.args) == 1 and isinstance(e.args[0], ast.Name) \
+                    and e.args[0].id in self.insert_lists:
+                return "(.inputInsertOne %s)" % _lstr(self.insert_lists[e.args[0].id])
+            if isinstance(e, (ast.Tuple, ast.List, ast.BinOp)) and not \
+                    (isinstance(e, ast.BinOp) and isinstance(e.op, (ast.Mult, ast.Pow))
+                     and not isinstance(e.left, ast.List)):
+                return "(.items %s)" % _llist(self.items(e))
+            if isinstance(e, ast.Call):
+                return "(.items %s)" % _llist(self.items(e))
+        return "(.items %s)" % _llist(["(.dim %s)" % self.dim(a) for a in args])
+
+    def new_obj(self, op, line):
+        self.ops.append(op)
+        if self.first_line is None:
+            self.first_line = line
+        self.nobj += 1
+        return self.nobj - 1
+
+    def creating_call(self, e):
+        """If `e` is a call creating an array from a tracked one, emit the op and
+        return the new object's index."""
+        if not isinstance(e, ast.Call):
+            return None
+        f = e.func
+        fname = ".".join(attr_chain(f)) if attr_chain(f) else None
+        if isinstance(f, ast.Attribute) and f.attr == "reshape":
+            src = self.obj_of(f.value)
+            if src is None:
+                src = self.creating_call(f.value)
+            if src is not None:
+                if e.keywords:
+                    raise Untranslatable("%s:%s: keyword arguments of reshape" % (self.rel, self.qual))
+                return self.new_obj("(.reshape %d %s)" % (src, self.shape(e.args)), e.lineno)
+        if isinstance(f, ast.Attribute) and f.attr == "copy" and not e.args:
+            src = self.obj_of(f.value)
+            if src is not None:
+                return self.new_obj("(.npArrayC %d)" % src, e.lineno)
+        if fname in ("np.array", "np.asarray", "np.ascontiguousarray", "np.copy", "copy",
+                     "cp.copy", "copy.copy") and e.args:
+            src = self.obj_of(e.args[0])
+            if src is None:
+                return None
+            kws = {k.arg: k.value for k in e.keywords}
+            extra = set(kws) - {"dtype", "order"}
+            if extra or len(e.args) > 2:
+                raise Untranslatable("%s:%s: arguments of %s" % (self.rel, self.qual, ast.unparse(e)))
+            order = kws.get("order")
+            order = order.value if isinstance(order, ast.Constant) else ("K" if order is None else "?")
+            if fname == "np.array" and order == "K":
+                return self.new_obj("(.npArray %d)" % src, e.lineno)
+            if fname == "np.array" and order == "C":
+                return self.new_obj("(.npArrayC %d)" % src, e.lineno)
+            if fname in ("np.copy", "copy", "cp.copy", "copy.copy") and order == "K":
+                return self.new_obj("(.copyK %d)" % src, e.lineno)
+            raise Untranslatable("%s:%s: cannot read %s" % (self.rel, self.qual, ast.unparse(e)))
+        return None
+
+    # -- statements ------------------------------------------------------
+    def scan_calls(self, node):
+        """creating calls inside an arbitrary expression (results unnamed)"""
+        for n in ast.walk(node):
+            if isinstance(n, ast.Call):
+                done = getattr(n, "_c20_done", False)
+                if not done:
+                    n._c20_done = True
+                    self.creating_call(n)
+
+    def run(self, stmts):
+        for s in stmts:
+            self.stmt(s)
+
+    def stmt(self, s):
+        if isinstance(s, ast.Assign) and len(s.targets) == 1:
+            t, v = s.targets[0], s.value
+            tname = t.id if isinstance(t, ast.Name) else (
+                ".".join(attr_chain(t)) if isinstance(t, ast.Attribute) and attr_chain(t) else None)
+            # x.shape = ...
+            if isinstance(t, ast.Attribute) and t.attr == "shape":
+                tgt = self.obj_of(t.value)
+                if tgt is not None:
+                    self.ops.append("(.setShape %d %s)" % (tgt, self.shape([v])))
+                    if self.first_line is None:
+                        self.first_line = s.lineno
+                    return
+            # x[...] = ...
+            if isinstance(t, ast.Subscript):
+                tgt = self.obj_of(t.value)
+                if tgt is not None:
+                    self.ops.append("(.writeData %d)" % tgt)
+                    return
+            # tuple unpacking that re-binds the tracked name from an input-parse result
+            if isinstance(t, ast.Tuple):
+                for el in t.elts:
+                    if isinstance(el, ast.Name) and el.id in self.names and el.id != self.var:
+                        del self.names[el.id]
+                if any(isinstance(el, ast.Name) and el.id == self.var for el in t.elts):
+                    self.notes.append("line %d: `%s` re-bound by unpacking `%s` (taken to be the "
+                                      "same array object)" % (s.lineno, self.var, ast.unparse(v)))
+                return
+            if tname is None:
+                self.scan_calls(v)
+                return
+            # shape / rank bookkeeping
+            sv = v
+            if isinstance(sv, ast.Call) and isinstance(sv.func, ast.Name) \
+                    and sv.func.id in ("deepcopy", "copy", "tuple", "list") and len(sv.args) == 1:
+                inner = sv.args[0]
+                if isinstance(inner, ast.Attribute) and inner.attr == "shape" \
+                        and self.obj_of(inner.value) is not None:
+                    self.shape_vars[tname] = self.obj_of(inner.value)
+                    if sv.func.id == "list":
+                        self.list_of_shape.add(tname)
+                    return
+            if isinstance(sv, ast.Attribute) and sv.attr == "shape" and self.obj_of(sv.value) is not None:
+                self.shape_vars[tname] = self.obj_of(sv.value)
+                return
+            if isinstance(sv, ast.Call) and isinstance(sv.func, ast.Name) and sv.func.id == "len" \
+                    and len(sv.args) == 1 and isinstance(sv.args[0], ast.Name) \
+                    and sv.args[0].id in self.shape_vars:
+                self.rank_vars.add(tname)
+                return
+            # alias / creation
+            src = self.obj_of(v)
+            if src is not None:
+                self.names[tname] = src
+                return
+            new = self.creating_call(v)
+            if new is not None:
+                self.names[tname] = new
+                return
+            self.scan_calls(v)
+            if tname in self.names and tname != self.var:
+                del self.names[tname]
+            elif tname == self.var:
+                raise Untranslatable("%s:%s: `%s` is re-bound to %s" % (self.rel, self.qual, self.var,
+                                                                          ast.unparse(v)))
+            return
+        if isinstance(s, ast.AugAssign):
+            tgt = self.obj_of(s.target) if not isinstance(s.target, ast.Subscript) \
+                else self.obj_of(s.target.value)
+            if tgt is not None:
+                self.ops.append("(.writeData %d)" % tgt)
+            self.scan_calls(s.value)
+            return
+        if isinstance(s, ast.Expr):
+            v = s.value
+            if isinstance(v, ast.Call) and isinstance(v.func, ast.Attribute):
+                tgt = self.obj_of(v.func.value)
+                if tgt is not None and v.func.attr == "setflags":
+                    kws = {k.arg: ast.unparse(k.value) for k in v.keywords}
+                    if kws == {"write": "False"} and not v.args:
+                        self.ops.append("(.setReadonly %d)" % tgt)
+                        return
+                    raise Untranslatable("%s:%s: %s" % (self.rel, self.qual, ast.unparse(v)))
+                if tgt is not None and v.func.attr in ("sort", "fill", "resize", "itemset", "put",
+                                                       "partition", "byteswap"):
+                    self.ops.append("(.writeData %d)" % tgt)
+                    return
+                # shape_list.insert(index, 1)
+                if isinstance(v.func.value, ast.Name) and v.func.value.id in self.list_of_shape \
+                        and v.func.attr == "insert" and len(v.args) == 2 \
+                        and isinstance(v.args[0], ast.Name) and ast.unparse(v.args[1]) == "1":
+                    self.insert_lists[v.func.value.id] = v.args[0].id
+                    return
+            self.scan_calls(v)
+            return
+        if isinstance(s, ast.If):
+            test = s.test
+            # if <rank var> == k: ... elif ...: one site per k
+            if isinstance(test, ast.Compare) and isinstance(test.left, ast.Name) \
+                    and test.left.id in self.rank_vars and len(test.ops) == 1 \
+                    and isinstance(test.ops[0], ast.Eq) and isinstance(test.comparators[0], ast.Constant):
+                k = test.comparators[0].value
+                self.ranks_seen.append(k)
+                if self.rank_branch == k:
+                    self.run(s.body)
+                else:
+                    self.run(s.orelse)
+                return
+            # if callable(x): x = x(...)   -- the user array is then what the user's function returns
+            if isinstance(test, ast.Call) and isinstance(test.func, ast.Name) \
+                    and test.func.id == "callable" and len(test.args) == 1 \
+                    and ast.unparse(test.args[0]) == self.var:
+                self.notes.append("line %d: `%s` may be a callable returning the array"
+                                  % (s.lineno, self.var))
+                return
+            # if copy: ten = cp.copy(tensor) else: ten = tensor   (parameter defaulting to True)
+            if isinstance(test, ast.Name) and test.id in self.default_true() \
+                    and len(s.body) == 1 and len(s.orelse) == 1 \
+                    and all(isinstance(b, ast.Assign) and len(b.targets) == 1 for b in s.body + s.orelse) \
+                    and ast.unparse(s.body[0].targets[0]) == ast.unparse(s.orelse[0].targets[0]) \
+                    and self.obj_of(s.orelse[0].value) is not None:
+                self.notes.append("line %d: branch `%s` (default True) followed; the other branch "
+                                  "works in place on request" % (s.lineno, test.id))
+                self.run(s.body)
+                return
+            self.scan_calls(test)
+            self.run(s.body)
+            self.run(s.orelse)
+            return
+        if isinstance(s, ast.For):
+            self.run(s.body)
+            self.run(s.orelse)
+            return
+        if isinstance(s, (ast.While, ast.With)):
+            self.run(s.body)
+            return
+        if isinstance(s, ast.Try):
+            self.run(s.body)
+            for h in s.handlers:
+                pass
+            self.run(s.orelse)
+            self.run(s.finalbody)
+            return
+        if isinstance(s, ast.Return) and s.value is not None:
+            self.scan_calls(s.value)
+            return
+        if isinstance(s, (ast.Assert, ast.Raise, ast.Pass, ast.FunctionDef, ast.Return,
+                          ast.AnnAssign, ast.Delete, ast.Import, ast.ImportFrom, ast.Break,
+                          ast.Continue, ast.Global, ast.Nonlocal)):
+            return
+        raise Untranslatable("%s:%s: statement %s" % (self.rel, self.qual, type(s).__name__))
+
+    def default_true(self):
+        a = self.fn.args
+        out = set()
+        for arg, d in zip(a.args[len(a.args) - len(a.defaults):], a.defaults):
+            if isinstance(d, ast.Constant) and d.value is True:
+                out.add(arg.arg)
+        return out
+
+
+def _c20_array_sites(src):
+    sites, notes, covered = [], [], set()
+    for rel, qual, var, loopvar in C20_ARRAY_ENTRIES:
+        fn = src.function(rel, qual)
+        track = loopvar or var
+        # the variable must exist: parameter, self attribute, or loop variable over the parameter
+        text = ast.unparse(fn)
+        if loopvar is None and not var.startswith("self.") \
+                and var not in [a.arg for a in fn.args.args]:
+            raise Untranslatable("%s:%s has no parameter %s" % (rel, qual, var))
+        if loopvar is not None:
+            loops = [n for n in ast.walk(fn) if isinstance(n, ast.For)
+                     and loopvar in [x.id for x in ast.walk(n.target) if isinstance(x, ast.Name)]]
+            if not loops:
+                raise Untranslatable("%s:%s: no loop over %s binding %s" % (rel, qual, var, loopvar))
+        probe = _ArrayFlow(rel, qual, fn, track)
+        probe.run(fn.body)
+        branches = sorted(set(probe.ranks_seen)) or [None]
+        for rb in branches:
+            fl = _ArrayFlow(rel, qual, fn, track, rank_branch=rb)
+            for n in ast.walk(fn):
+                if hasattr(n, "_c20_done"):
+                    del n._c20_done
+            fl.run(fn.body)
+            if not fl.ops:
+                raise Untranslatable("%s:%s: nothing is done with %s any more" % (rel, qual, track))
+            sites.append((rel, qual, var if loopvar is None else "%s[*]" % var, fl.first_line or fn.lineno,
+                          rb or 0, fl.ops))
+            notes += ["%s:%s %s" % (rel, qual, n) for n in fl.notes if "%s:%s %s" % (rel, qual, n) not in notes]
+        covered.add((rel, qual))
+    # completeness: every `.shape = ` store in the anchors is accounted for
+    for rel in C20_ANCHORS:
+        tree = src.tree(rel)
+
+        def visit(node, qual):
+            for ch in ast.iter_child_nodes(node):
+                q = qual
+                if isinstance(ch, (ast.FunctionDef, ast.ClassDef)):
+                    q = (qual + "." if qual else "") + ch.name
+                if isinstance(ch, ast.Assign):
+                    for t in ch.targets:
+                        if isinstance(t, ast.Attribute) and t.attr == "shape":
+                            top = ".".join(qual.split(".")[:2]) if qual else qual
+                            ok = any((rel, c) in covered or (rel, c) in C20_INTERNAL_SHAPE_STORES
+                                     for c in (qual, top, qual.split(".")[0]))
+                            if not ok:
+                                raise Untranslatable(
+                                    "%s:%d: `%s = ...` in %s is not a declared array site"
+                                    % (rel, ch.lineno, ast.unparse(t), qual))
+                visit(ch, q)
+        visit(tree, "")
+    # the input parse hands the state through unchanged
+    for rel, qual, name in (("oqupy/system_dynamics.py", "_compute_dynamics_input_parse", "initial_state"),
+                            ("oqupy/tempo.py", "_tempo_physical_input_parse", "initial_state")):
+        fn = src.function(rel, qual)
+        for n in ast.walk(fn):
+            if isinstance(n, ast.Name) and n.id == name and isinstance(n.ctx, ast.Store):
+                raise Untranslatable("%s:%s re-binds %s" % (rel, qual, name))
+    return sites, notes
+
+
+@fragment("CacheKeys")
+def frag_cachekeys(src):
+    out = [C20_TYPES]
+    msites, closures, public = _c20_memo_sites(src)
+    if not msites:
+        raise Untranslatable("no memoised method found in " + ", ".join(C20_MEMO_FILES))
+    rows = []
+    for (cls, m, line, cached, kp, ka, reads, calls) in msites:
+        rd = _llist(["⟨%s, .%s⟩" % (_lstr(a), k) for a, k in reads])
+        rows.append("  { cls := %s, method := %s, line := %d, cached := %s,\n"
+                    "    keyParams := %s, keyAttrs := %s,\n    reads := %s,\n    calls := %s }"
+                    % (_lstr(cls), _lstr(m), line, "true" if cached else "false",
+                       _llist(map(_lstr, kp)), _llist(map(_lstr, ka)), rd, _llist(map(_lstr, calls))))
+    out.append("/-- public and memoised methods of the classes that memoise "
+               "(%s) -/\ndef memoSites : List MemoSite := [\n%s\n]\n"
+               % (", ".join(C20_MEMO_FILES), ",\n".join(rows)))
+    out.append("/-- attributes of these classes a user can assign (instance attributes without a "
+               "leading underscore, and the settable properties of BaseAPIClass) -/\n"
+               "def publicAttrs : List String := %s\n" % _llist(map(_lstr, public)))
+    out.append("/-- lambdas stored on instances by `__init__` (class, attribute, class whose "
+               "`__init__` creates it, line) -/\ndef storedClosures : List (String × String × String × Nat) := %s\n"
+               % _llist("(%s, %s, %s, %d)" % (_lstr(c), _lstr(a), _lstr(o), l)
+                        for c, a, o, l in closures))
+    crow = ["  { cls := %s, method := %s, line := %d, kind := .%s }" % (_lstr(c), _lstr(m), l, k)
+            for c, m, l, k in _c20_copy_sites(src)]
+    out.append("/-- how `Bath` takes and hands out its correlations object -/\n"
+               "def copySites : List CopySite := [\n%s\n]\n" % ",\n".join(crow))
+    asites, notes = _c20_array_sites(src)
+    arow = ["  { file := %s, func := %s, param := %s, line := %d, rank := %d,\n    ops := %s }"
+            % (_lstr(f), _lstr(q), _lstr(p), l, r, _llist(ops)) for f, q, p, l, r, ops in asites]
+    out.append("/-- what the anchored code does with user arrays -/\n"
+               "def arraySites : List ArraySite := [\n%s\n]\n" % ",\n".join(arow))
+    if notes:
+        out.append("/- notes\n%s\n-/\n" % "\n".join("  " + n for n in notes))
+    return "\n".join(out)
+
+
+# ---------------------------------------------------------------------------
+# InfluenceArgs (C01):  what influence_matrix asks of correlation_2d_integral and
+# the formula of its entries
+# ---------------------------------------------------------------------------
+
+class VecExpr:
+    """numpy vector/matrix expression of influence_matrix -> Lean term over a ring K.
+    Vectors op_m/op_p are functions of an index; np.outer(x, y)[e, l] = x[e] * y[l]."""
+
+    def __init__(self):
+        pass
+
+    def tr(self, e, idx):
+        """idx: name of the index variable for vector-valued sub-expressions
+        (None inside a matrix-valued expression before np.outer splits it)."""
+        if isinstance(e, ast.Name):
+            if e.id == "op_m":
+                return "(Om %s)" % idx
+            if e.id == "op_p":
+                return "(Op %s)" % idx
+            raise Untranslatable("name %s in influence formula" % e.id)
+        if isinstance(e, ast.Attribute):
+            ch = attr_chain(e)
+            if ch == ["eta_dk", "real"]:
+                return "reEta"
+            if ch == ["eta_dk", "imag"]:
+                return "imEta"
+            raise Untranslatable("attribute in influence formula")
+        if isinstance(e, ast.Constant):
+            if e.value == 1j:
+                return "iUnit"
+            raise Untranslatable("constant %r in influence formula" % (e.value,))
+        if isinstance(e, ast.UnaryOp) and isinstance(e.op, ast.USub):
+            return "(-%s)" % self.tr(e.operand, idx)
+        if isinstance(e, ast.BinOp) and isinstance(e.op, (ast.Add, ast.Mult, ast.Sub)):
+            sym = {ast.Add: "+", ast.Mult: "*", ast.Sub: "-"}[type(e.op)]
+            return "(%s %s %s)" % (self.tr(e.left, idx), sym, self.tr(e.right, idx))
+        if isinstance(e, ast.Call):
+            ch = attr_chain(e.func)
+            if ch == ["np", "exp"]:
+                return "(E %s)" % self.tr(e.args[0], idx)
+            if ch == ["np", "outer"]:
+                return "(%s * %s)" % (self.tr(e.args[0], "e"), self.tr(e.args[1], "l"))
+            if ch == ["np", "diag"]:
+                return self.tr(e.args[0], idx)
+        raise Untranslatable("influence formula: " + ast.dump(e)[:120])
+
+
+@fragment("InfluenceArgs")
+def frag_influence_args(src):
+    fn = src.function("oqupy/tempo.py", "influence_matrix")
+    out = []
+    ty = {"dt": "Flt", "dkmax": "Int", "dk": "Int", "add_correlation_time": "Flt"}
+    # the if / elif / else on dk
+    top = [s for s in fn.body if isinstance(s, ast.If)]
+    if not top:
+        raise Untranslatable("influence_matrix: no branch on dk")
+    br = top[0]
+    def cond(node):
+        return ast.unparse(node.test)
+    if cond(br) != "dk == 0" or len(br.orelse) != 1 or not isinstance(br.orelse[0], ast.If) \
+            or cond(br.orelse[0]) != "dk < 0":
+        raise Untranslatable("influence_matrix: expected `if dk == 0 / elif dk < 0 / else`")
+    zero, neg, pos = br.body, br.orelse[0].body, br.orelse[0].orelse
+
+    def assigns(block):
+        d = {}
+        for st in block:
+            if isinstance(st, ast.Assign) and len(st.targets) == 1 and isinstance(st.targets[0], ast.Name):
+                d[st.targets[0].id] = st.value
+        return d
+
+    for tag, block in (("zero", zero), ("pos", pos)):
+        d = assigns(block)
+        if set(d) != {"time_1", "time_2", "shape"}:
+            raise Untranslatable("influence_matrix[%s]: unexpected assignments %s" % (tag, sorted(d)))
+        if not (isinstance(d["time_2"], ast.Constant) and d["time_2"].value is None):
+            raise Untranslatable("influence_matrix[%s]: time_2 is not None" % tag)
+        tr = FnTranslator(ty)
+        t1 = tr.to_flt(tr.expr(d["time_1"]))
+        out.append(emit_def("infl_%s_time1" % tag, tr, t1, "Flt", ["dt", "dk"],
+                            "influence_matrix, branch dk %s 0: time_1 = %s" %
+                            ("==" if tag == "zero" else ">", ast.unparse(d["time_1"]))))
+        out.append('def infl_%s_shape : String := "%s"\n' % (tag, d["shape"].value))
+    # dk < 0
+    d = assigns(neg)
+    if set(d) != {"time_1", "shape"}:
+        raise Untranslatable("influence_matrix[dk<0]: unexpected assignments %s" % sorted(d))
+    inner = [s for s in neg if isinstance(s, ast.If)]
+    if len(inner) != 1 or ast.unparse(inner[0].test) != "parameters.add_correlation_time is not None":
+        raise Untranslatable("influence_matrix[dk<0]: expected test on add_correlation_time")
+    d2 = assigns(inner[0].body)
+    if set(d2) != {"time_2"}:
+        raise Untranslatable("influence_matrix[dk<0]: time_2 assignment")
+    els = inner[0].orelse
+    if not (len(els) == 1 and isinstance(els[0], ast.Return) and isinstance(els[0].value, ast.Constant)
+            and els[0].value.value is None):
+        raise Untranslatable("influence_matrix[dk<0]: else branch is not `return None`")
+    tr = FnTranslator(ty)
+    out.append(emit_def("infl_neg_time1", tr, tr.to_flt(tr.expr(d["time_1"])), "Flt",
+                        ["dt", "dkmax", "dk"], "influence_matrix, dk < 0: time_1 = " + ast.unparse(d["time_1"])))
+    tr = FnTranslator(ty)
+    out.append(emit_def("infl_neg_time2", tr, tr.to_flt(tr.expr(d2["time_2"])), "Flt",
+                        ["dt", "dkmax", "dk", "add_correlation_time"],
+                        "influence_matrix, dk < 0: time_2 = " + ast.unparse(d2["time_2"])))
+    out.append('def infl_neg_shape : String := "%s"\n' % d["shape"].value)
+    out.append("/-- dk < 0 without an additional correlation time: `return None` -/\n"
+               "def infl_neg_none_without_add : Bool := true\n")
+    # the call of correlation_2d_integral
+    calls = [n for n in ast.walk(fn) if isinstance(n, ast.Call)
+             and attr_chain(n.func) == ["correlations", "correlation_2d_integral"]]
+    if len(calls) != 1:
+        raise Untranslatable("influence_matrix: expected one correlation_2d_integral call")
+    kw = {k.arg: ast.unparse(k.value) for k in calls[0].keywords}
+    if kw != {"delta": "dt", "time_1": "time_1", "time_2": "time_2", "shape": "shape",
+              "epsrel": "parameters.epsrel"}:
+        raise Untranslatable("influence_matrix: correlation_2d_integral keywords %r" % kw)
+    # the entry formulas
+    second = [s for s in fn.body if isinstance(s, ast.If)][1]
+    if ast.unparse(second.test) != "dk == 0":
+        raise Untranslatable("influence_matrix: second branch is not on dk == 0")
+    a0, a1 = assigns(second.body), assigns(second.orelse)
+    ve = VecExpr()
+    sig = "{K : Type} [CommRing K] (E : K → K) (reEta imEta iUnit : K) (Om Op : ℕ → K)"
+    out.append("/-- dk = 0: infl = %s -/\ndef infl_entry_diag %s (a : ℕ) : K :=\n  %s\n"
+               % (ast.unparse(a0["infl"]), sig, ve.tr(a0["infl"], "a")))
+    out.append("/-- dk ≠ 0: infl = %s  (entry [e, l]) -/\ndef infl_entry %s (e l : ℕ) : K :=\n  %s\n"
+               % (ast.unparse(a1["infl"]), sig, ve.tr(a1["infl"], None)))
+    # the names bound to op_p / op_m
+    names = assigns(fn.body)
+    if ast.unparse(names.get("op_p")) != "coupling_acomm" or ast.unparse(names.get("op_m")) != "coupling_comm":
+        raise Untranslatable("influence_matrix: op_p/op_m are not coupling_acomm/coupling_comm")
+    return "\n".join(out)
+
+
+# ---------------------------------------------------------------------------
+# FileFlags  (C16, C17): process-tensor files -- flag tests, open modes, `_removeable`,
+# statement order of export()/_create_file()/remove(), keys read by _read_file,
+# SimpleProcessTensor.set_initial_tensor as written, PtTempo's choice of PT class.
+# The generated file imports Model/PTFile (types only) and ends in `flags : Flags`.
+# ---------------------------------------------------------------------------
+
+FF_REL = "oqupy/process_tensor.py"
+FF_ATTRS = {"oqupy_version": "AttrName.version", "name": "AttrName.name",
+            "description": "AttrName.description", "writing": "AttrName.writing"}
+FF_ARRS = {"hs_dim": "ArrName.hsDim", "dt": "ArrName.dt",
+           "transform_in": "ArrName.transformIn", "transform_out": "ArrName.transformOut"}
+FF_VLEN = {"initial_tensor_data": ("VName.init", True), "initial_tensor_shape": ("VName.init", False),
+           "mpo_tensors_data": ("VName.mpo", True), "mpo_tensors_shape": ("VName.mpo", False),
+           "cap_tensors_data": ("VName.cap", True), "cap_tensors_shape": ("VName.cap", False)}
+
+
+def _ff_body(fn):
+    """statements of a function without the docstring"""
+    body = list(fn.body)
+    if body and isinstance(body[0], ast.Expr) and isinstance(body[0].value, ast.Constant) \
+            and isinstance(body[0].value.value, str):
+        body = body[1:]
+    return body
+
+
+def _ff_lean_str(s):
+    if not isinstance(s, str) or any(c in s for c in '"\\\n'):
+        raise Untranslatable("string constant %r" % (s,))
+    return '"%s"' % s
+
+
+def _ff_is_attr_sub(node, key=None):
+    """`self._f.attrs[<const>]`"""
+    if isinstance(node, ast.Subscript) and attr_chain(node.value) == ["self", "_f", "attrs"] \
+            and isinstance(node.slice, ast.Constant) and isinstance(node.slice.value, str):
+        return key is None or node.slice.value == key
+    return False
+
+
+def _ff_pyval(e, atoms):
+    """Python expression over truth values -> Lean term of type PyVal.
+    atoms: list of (predicate(node) -> bool, lean term)."""
+    for pred, term in atoms:
+        if pred(e):
+            return term
+    if isinstance(e, ast.Constant) and (isinstance(e.value, bool) or e.value is None):
+        return {True: "PyVal.pyTrue", False: "PyVal.pyFalse", None: "PyVal.pyNone"}[e.value]
+    if isinstance(e, ast.Compare):
+        if len(e.ops) != 1:
+            raise Untranslatable("chained comparison in flag test")
+        fn = {ast.Is: "PyVal.pyIs", ast.IsNot: "PyVal.pyIsNot", ast.Eq: "PyVal.pyEq",
+              ast.NotEq: "PyVal.pyNe"}.get(type(e.ops[0]))
+        if fn is None:
+            raise Untranslatable("comparison %s in flag test" % type(e.ops[0]).__name__)
+        return "(%s %s %s)" % (fn, _ff_pyval(e.left, atoms), _ff_pyval(e.comparators[0], atoms))
+    if isinstance(e, ast.BoolOp):
+        fn = "PyVal.pyAnd" if isinstance(e.op, ast.And) else "PyVal.pyOr"
+        parts = [_ff_pyval(v, atoms) for v in e.values]
+        out = parts[-1]
+        for p in reversed(parts[:-1]):
+            out = "(%s %s %s)" % (fn, p, out)
+        return out
+    if isinstance(e, ast.UnaryOp) and isinstance(e.op, ast.Not):
+        return "(PyVal.pyNot %s)" % _ff_pyval(e.operand, atoms)
+    if isinstance(e, ast.Call) and attr_chain(e.func) == ["bool"] and len(e.args) == 1 \
+            and not e.keywords:
+        return "(PyVal.pyBool %s)" % _ff_pyval(e.args[0], atoms)
+    raise Untranslatable("flag test %s" % ast.unparse(e))
+
+
+def _ff_mentions_writing(node):
+    return any(_ff_is_attr_sub(n, "writing") for n in ast.walk(node))
+
+
+def _ff_read_file(src, out):
+    fn = src.function(FF_REL, "FileProcessTensor._read_file")
+    # (1) the open mode
+    opens = [n for n in ast.walk(fn) if isinstance(n, ast.Call)
+             and attr_chain(n.func) == ["h5py", "File"]]
+    if len(opens) != 1 or len(opens[0].args) != 2 or opens[0].keywords or \
+            not isinstance(opens[0].args[1], ast.Constant):
+        raise Untranslatable("_read_file: expected exactly one h5py.File(filename, <const>)")
+    out.append("/-- %s:%d  _read_file: %s -/\ndef readMode : String := %s\n"
+               % (FF_REL, opens[0].lineno, ast.unparse(opens[0]),
+                  _ff_lean_str(opens[0].args[1].value)))
+    # (2) the test that triggers the corruption warning
+    ifs = [n for n in ast.walk(fn) if isinstance(n, ast.If) and _ff_mentions_writing(n.test)]
+    if len(ifs) != 1:
+        raise Untranslatable("_read_file: expected exactly one `if` testing attrs['writing'], "
+                             "found %d" % len(ifs))
+    node = ifs[0]
+    if node.orelse or len(node.body) != 1 or not isinstance(node.body[0], ast.Expr) or \
+            not isinstance(node.body[0].value, ast.Call) or \
+            attr_chain(node.body[0].value.func) != ["warnings", "warn"]:
+        raise Untranslatable("_read_file: the test on attrs['writing'] does not guard exactly "
+                             "one warnings.warn(...)")
+    term = _ff_pyval(node.test, [(lambda n: _ff_is_attr_sub(n, "writing"), "v")])
+    out.append("/-- %s:%d  _read_file: `if %s: warnings.warn(...)` -/\n"
+               "def readWarn (v : PyVal) : Bool := PyVal.truthy %s\n"
+               % (FF_REL, node.lineno, ast.unparse(node.test), term))
+
+    # (3) keys accessed outside a try/except KeyError
+    attrs, arrs, vls = [], [], []
+
+    def catches_keyerror(t):
+        for h in t.handlers:
+            names = [h.type] if not isinstance(h.type, ast.Tuple) else list(h.type.elts)
+            if h.type is None or any(isinstance(n, ast.Name) and n.id in ("KeyError", "Exception", "LookupError")
+                                     for n in names):
+                return True
+        return False
+
+    def visit(n):
+        if isinstance(n, ast.Try) and catches_keyerror(n):
+            for part in list(n.orelse) + list(n.finalbody):
+                visit(part)
+            return
+        if isinstance(n, ast.Subscript) and isinstance(n.ctx, ast.Load) and \
+                isinstance(n.slice, ast.Constant) and isinstance(n.slice.value, str):
+            ch = attr_chain(n.value)
+            key = n.slice.value
+            if ch == ["self", "_f", "attrs"]:
+                if key not in FF_ATTRS:
+                    raise Untranslatable("_read_file reads unknown attribute %r" % key)
+                if FF_ATTRS[key] not in attrs:
+                    attrs.append(FF_ATTRS[key])
+            elif ch == ["self", "_f"]:
+                if key in FF_ARRS:
+                    if FF_ARRS[key] not in arrs:
+                        arrs.append(FF_ARRS[key])
+                elif key in FF_VLEN:
+                    t = "(%s, %s)" % (FF_VLEN[key][0], "true" if FF_VLEN[key][1] else "false")
+                    if t not in vls:
+                        vls.append(t)
+                else:
+                    raise Untranslatable("_read_file reads unknown dataset %r" % key)
+        for ch_ in ast.iter_child_nodes(n):
+            visit(ch_)
+
+    for s in fn.body:
+        visit(s)
+    out.append("/-- %s:%d  _read_file: attributes / datasets accessed outside a `try … except "
+               "KeyError` (a missing one makes the import fail) -/\n"
+               "def readAttrs : List AttrName := [%s]\n"
+               "def readArrs : List ArrName := [%s]\n"
+               "def readVs : List (VName × Bool) := [%s]\n"
+               % (FF_REL, fn.lineno, ", ".join(attrs), ", ".join(arrs), ", ".join(vls)))
+
+
+def _ff_close(src, out):
+    fn = src.function(FF_REL, "FileProcessTensor.close")
+    body = _ff_body(fn)
+    ok = len(body) == 1 and isinstance(body[0], ast.If) and not body[0].orelse and \
+        ast.unparse(body[0].test) == "self._f is not None"
+    if not ok:
+        raise Untranslatable("close(): expected `if self._f is not None:` as the only statement")
+    inner = body[0].body
+    if len(inner) != 2 or not isinstance(inner[0], ast.If) or inner[0].orelse or \
+            not isinstance(inner[1], ast.Expr) or ast.unparse(inner[1]) != "self._f.close()":
+        raise Untranslatable("close(): expected `if <test>: attrs['writing'] = <const>` followed "
+                             "by `self._f.close()`")
+    g = inner[0]
+    if len(g.body) != 1 or not isinstance(g.body[0], ast.Assign) or len(g.body[0].targets) != 1 or \
+            not _ff_is_attr_sub(g.body[0].targets[0], "writing") or \
+            not isinstance(g.body[0].value, ast.Constant) or \
+            not isinstance(g.body[0].value.value, bool):
+        raise Untranslatable("close(): the guarded statement is not attrs['writing'] = <bool>")
+    atoms = [(lambda n: _ff_is_attr_sub(n, "writing"), "v"),
+             (lambda n: attr_chain(n) == ["self", "_write"], "(PyVal.ofBool write)")]
+    term = _ff_pyval(g.test, atoms)
+    out.append("/-- %s:%d  close(): `if %s: %s` then `self._f.close()` -/\n"
+               "def closeReset (write : Bool) (v : PyVal) : Bool := PyVal.truthy %s\n"
+               "def closeValue : Bool := %s\n"
+               % (FF_REL, g.lineno, ast.unparse(g.test), ast.unparse(g.body[0]), term,
+                  "true" if g.body[0].value.value else "false"))
+
+
+def _ff_const_bool(node):
+    if isinstance(node, ast.Constant) and isinstance(node.value, bool):
+        return "true" if node.value else "false"
+    return None
+
+
+def _ff_mode_chain(node, var):
+    """if var == "a": ... elif var == "b": ... else: raise  ->  [(string, body)], has_raise"""
+    out = []
+    while True:
+        if not isinstance(node, ast.If):
+            raise Untranslatable("mode chain: expected if/elif")
+        t = node.test
+        if not (isinstance(t, ast.Compare) and len(t.ops) == 1 and isinstance(t.ops[0], ast.Eq)
+                and isinstance(t.left, ast.Name) and t.left.id == var
+                and isinstance(t.comparators[0], ast.Constant)
+                and isinstance(t.comparators[0].value, str)):
+            raise Untranslatable("mode chain: test %s" % ast.unparse(t))
+        out.append((t.comparators[0].value, node.body))
+        if len(node.orelse) == 1 and isinstance(node.orelse[0], ast.If):
+            node = node.orelse[0]
+            continue
+        if len(node.orelse) == 1 and isinstance(node.orelse[0], ast.Raise):
+            return out
+        raise Untranslatable("mode chain: the final else does not raise")
+
+
+def _ff_flag_expr(e, table):
+    """small boolean expressions over named flags -> Lean Bool term"""
+    u = ast.unparse(e)
+    if u in table:
+        return table[u]
+    c = _ff_const_bool(e)
+    if c is not None:
+        return c
+    if isinstance(e, ast.UnaryOp) and isinstance(e.op, ast.Not):
+        return "(!%s)" % _ff_flag_expr(e.operand, table)
+    if isinstance(e, ast.BoolOp):
+        sym = " && " if isinstance(e.op, ast.And) else " || "
+        return "(" + sym.join(_ff_flag_expr(v, table) for v in e.values) + ")"
+    raise Untranslatable("boolean expression %s" % u)
+
+
+class _FFPath:
+    """symbolic execution of straight-line/if code for ONE assigned attribute"""
+    RAISE = object()
+    UNSET = "«unassigned»"
+
+    def final(self, stmts, what, old=None):
+        res = self.run(stmts, None)
+        if res is None and old is not None:
+            res = self.UNSET
+        if old is not None and res is not self.RAISE:
+            res = res.replace(self.UNSET, old)
+        if res is None or res is self.RAISE or self.UNSET in res:
+            raise Untranslatable("%s: %s is not assigned on every path" % (what, ".".join(self.target)))
+        return res
+
+    def __init__(self, target, value_of, test_of):
+        self.target, self.value_of, self.test_of = target, value_of, test_of
+
+    def run(self, stmts, prev):
+        for s in stmts:
+            if prev is self.RAISE:
+                break
+            if isinstance(s, ast.Raise) or isinstance(s, ast.Return):
+                return self.RAISE if isinstance(s, ast.Raise) else prev
+            if isinstance(s, ast.Assign) and len(s.targets) == 1 and \
+                    attr_chain(s.targets[0]) == self.target:
+                prev = self.value_of(s.value)
+            elif isinstance(s, ast.If):
+                touched = any(isinstance(n, ast.Assign) and len(n.targets) == 1 and
+                              attr_chain(n.targets[0]) == self.target for n in ast.walk(s))
+                raises = any(isinstance(n, ast.Raise) for n in ast.walk(s))
+                if not touched and not raises:
+                    continue
+                a = self.run(s.body, prev)
+                b = self.run(s.orelse, prev)
+                if a is self.RAISE and b is self.RAISE:
+                    prev = self.RAISE
+                elif a is self.RAISE:
+                    prev = b
+                elif b is self.RAISE:
+                    prev = a
+                elif a is b or a == b:
+                    prev = a
+                else:
+                    prev = "(if %s then %s else %s)" % (
+                        self.test_of(s.test), self.UNSET if a is None else a,
+                        self.UNSET if b is None else b)
+            elif any(isinstance(n, ast.Assign) and any(attr_chain(t) == self.target for t in n.targets)
+                     for n in ast.walk(s)):
+                raise Untranslatable("%s assigned inside %s" % (".".join(self.target),
+                                                                type(s).__name__))
+        return prev
+
+
+def _ff_init(src, out):
+    fn = src.function(FF_REL, "FileProcessTensor.__init__")
+    body = _ff_body(fn)
+    if not body or not isinstance(body[0], ast.If):
+        raise Untranslatable("FileProcessTensor.__init__: does not start with the mode chain")
+    chain = _ff_mode_chain(body[0], "mode")
+    rows = []
+    for key, stmts in chain:
+        vals = {}
+        for s in stmts:
+            if not (isinstance(s, ast.Assign) and len(s.targets) == 1 and
+                    attr_chain(s.targets[0]) in (["self", "_write"], ["self", "_overwrite"])
+                    and _ff_const_bool(s.value) is not None):
+                raise Untranslatable("__init__: mode branch %r: %s" % (key, ast.unparse(s)))
+            vals[attr_chain(s.targets[0])[1]] = _ff_const_bool(s.value)
+        if set(vals) != {"_write", "_overwrite"}:
+            raise Untranslatable("__init__: mode branch %r does not set both flags" % key)
+        rows.append((key, vals["_write"], vals["_overwrite"]))
+    term = "none"
+    for key, w, o in reversed(rows):
+        term = "if mode == %s then some (%s, %s) else %s" % (_ff_lean_str(key), w, o, term)
+    out.append("/-- %s:%d  FileProcessTensor.__init__: mode ↦ (_write, _overwrite); any other "
+               "mode raises ValueError -/\ndef modeFlags (mode : String) : Option (Bool × Bool) :=\n  %s\n"
+               % (FF_REL, body[0].lineno, term))
+    # `_write`/`_overwrite` must not be reassigned later
+    for n in ast.walk(ast.Module(body=body[1:], type_ignores=[])):
+        if isinstance(n, ast.Assign) and any(attr_chain(t) in (["self", "_write"], ["self", "_overwrite"])
+                                             for t in n.targets):
+            raise Untranslatable("__init__: _write/_overwrite reassigned after the mode chain")
+    table = {"self._write": "write", "self._overwrite": "overwrite",
+             "filename is None": "(!hasFilename)", "filename is not None": "hasFilename"}
+    p = _FFPath(["self", "_removeable"], lambda v: _ff_flag_expr(v, table),
+                lambda t: _ff_flag_expr(t, table))
+    res = p.final(body[1:], "FileProcessTensor.__init__")
+    out.append("/-- %s:%d  FileProcessTensor.__init__: the value assigned to `_removeable` on each "
+               "path -/\ndef removeable (write overwrite hasFilename : Bool) : Bool :=\n  %s\n"
+               % (FF_REL, fn.lineno, res))
+    # other assignments of _removeable anywhere else in the class?
+    cls = src.function(FF_REL, "FileProcessTensor")
+    for m in cls.body:
+        if isinstance(m, ast.FunctionDef) and m.name != "__init__":
+            for n in ast.walk(m):
+                if isinstance(n, ast.Assign) and any(attr_chain(t) == ["self", "_removeable"]
+                                                     for t in n.targets):
+                    raise Untranslatable("_removeable assigned in %s" % m.name)
+
+
+def _ff_remove(src, out):
+    fn = src.function(FF_REL, "FileProcessTensor.remove")
+    steps = []
+    for s in _ff_body(fn):
+        u = ast.unparse(s)
+        if u == "self.close()":
+            steps.append("RemoveStep.close")
+        elif u == "os.remove(self._filename)":
+            steps.append("RemoveStep.delete")
+        elif isinstance(s, ast.If) and ast.unparse(s.test) == "self._removeable":
+            def only(stmts, what):
+                if not stmts:
+                    return "false"
+                if len(stmts) == 1 and what(stmts[0]):
+                    return "true"
+                raise Untranslatable("remove(): branch %s" % ast.unparse(stmts[0]))
+            d = only(s.body, lambda x: ast.unparse(x) == "os.remove(self._filename)")
+            r = only(s.orelse, lambda x: isinstance(x, ast.Raise))
+            steps.append("RemoveStep.guarded %s %s" % (d, r))
+        else:
+            raise Untranslatable("remove(): statement %s" % u)
+    out.append("/-- %s:%d  FileProcessTensor.remove: statements in order -/\n"
+               "def removeSteps : List RemoveStep := [%s]\n"
+               % (FF_REL, fn.lineno, ", ".join(steps)))
+
+
+def _ff_mode_by_overwrite(stmt, what):
+    """`if overwrite: mode = "a" else: mode = "b"` -> Lean term over `overwrite`"""
+    ok = isinstance(stmt, ast.If) and isinstance(stmt.test, ast.Name) and stmt.test.id == "overwrite" \
+        and len(stmt.body) == 1 and len(stmt.orelse) == 1
+    if ok:
+        vals = []
+        for s in (stmt.body[0], stmt.orelse[0]):
+            if isinstance(s, ast.Assign) and len(s.targets) == 1 and isinstance(s.targets[0], ast.Name) \
+                    and s.targets[0].id == "mode" and isinstance(s.value, ast.Constant):
+                vals.append(_ff_lean_str(s.value.value))
+        if len(vals) == 2:
+            return "if overwrite then %s else %s" % tuple(vals)
+    raise Untranslatable("%s: expected `if overwrite: mode = … else: mode = …`" % what)
+
+
+def _ff_ctor_passes_mode(call, what):
+    if not (isinstance(call, ast.Call) and attr_chain(call.func) == ["FileProcessTensor"]):
+        raise Untranslatable("%s: expected FileProcessTensor(...)" % what)
+    kw = {k.arg: ast.unparse(k.value) for k in call.keywords}
+    if call.args or kw.get("mode") != "mode" or kw.get("filename") != "filename":
+        raise Untranslatable("%s: FileProcessTensor(...) is not called with mode=mode, "
+                             "filename=filename" % what)
+
+
+def _ff_export(src, out):
+    fn = src.function(FF_REL, "SimpleProcessTensor.export")
+    body = _ff_body(fn)
+    if not body:
+        raise Untranslatable("export(): empty")
+    out.append("/-- %s:%d  SimpleProcessTensor.export: overwrite ↦ mode -/\n"
+               "def exportMode (overwrite : Bool) : String := %s\n"
+               % (FF_REL, body[0].lineno, _ff_mode_by_overwrite(body[0], "export()")))
+    steps = []
+    for s in body[1:]:
+        u = ast.unparse(s)
+        if isinstance(s, ast.Assign) and ast.unparse(s.targets[0]) == "pt_file":
+            _ff_ctor_passes_mode(s.value, "export()")
+            kw = {k.arg: ast.unparse(k.value) for k in s.value.keywords}
+            want = {"hilbert_space_dimension": "self._hs_dim", "dt": "self._dt",
+                    "transform_in": "self._transform_in", "transform_out": "self._transform_out",
+                    "name": "self.name", "description": "self.description"}
+            for k, v in want.items():
+                if kw.get(k) != v:
+                    raise Untranslatable("export(): FileProcessTensor(%s=%s)" % (k, kw.get(k)))
+            steps.append("ExportStep.create")
+        elif u == "pt_file.set_initial_tensor(self._initial_tensor)":
+            steps.append("ExportStep.setInitial")
+        elif u == "for step, mpo in enumerate(self._mpo_tensors):\n    pt_file.set_mpo_tensor(step, mpo)":
+            steps.append("ExportStep.loopMpo")
+        elif u == "for step, cap in enumerate(self._cap_tensors):\n    pt_file.set_cap_tensor(step, cap)":
+            steps.append("ExportStep.loopCap")
+        elif u == "pt_file.close()":
+            steps.append("ExportStep.close")
+        else:
+            raise Untranslatable("export(): statement %s" % u)
+    out.append("/-- %s:%d  SimpleProcessTensor.export: statements in order -/\n"
+               "def exportSteps : List ExportStep := [%s]\n"
+               % (FF_REL, fn.lineno, ", ".join(steps)))
+
+
+def _ff_create_file(src, out):
+    fn = src.function(FF_REL, "FileProcessTensor._create_file")
+    steps = []
+    skipped = []
+    for s in _ff_body(fn):
+        u = ast.unparse(s)
+        # open
+        if isinstance(s, ast.If) and ast.unparse(s.test) == "self._overwrite":
+            modes = []
+            for br in (s.body, s.orelse):
+                if len(br) == 1 and isinstance(br[0], ast.Assign) and \
+                        attr_chain(br[0].targets[0]) == ["self", "_f"] and \
+                        isinstance(br[0].value, ast.Call) and \
+                        attr_chain(br[0].value.func) == ["h5py", "File"] and \
+                        len(br[0].value.args) == 2 and not br[0].value.keywords and \
+                        ast.unparse(br[0].value.args[0]) == "filename" and \
+                        isinstance(br[0].value.args[1], ast.Constant):
+                    modes.append(_ff_lean_str(br[0].value.args[1].value))
+            if len(modes) != 2:
+                raise Untranslatable("_create_file: open statement %s" % u)
+            out.append("/-- %s:%d  _create_file: `_overwrite` ↦ h5py mode -/\n"
+                       "def createMode (overwrite : Bool) : String := if overwrite then %s else %s\n"
+                       % (FF_REL, s.lineno, modes[0], modes[1]))
+            steps.append("CreateStep.openFile")
+            continue
+        # attribute
+        if isinstance(s, ast.Assign) and len(s.targets) == 1 and _ff_is_attr_sub(s.targets[0]):
+            key = s.targets[0].slice.value
+            if key not in FF_ATTRS:
+                raise Untranslatable("_create_file: unknown attribute %r" % key)
+            v = ast.unparse(s.value)
+            srcs = {"__version__": "AttrSrc.version", "self.name": "AttrSrc.name",
+                    "self.description": "AttrSrc.description"}
+            if v in srcs:
+                steps.append("CreateStep.attr %s %s" % (FF_ATTRS[key], srcs[v]))
+            elif _ff_const_bool(s.value) is not None:
+                steps.append("CreateStep.attr %s (AttrSrc.const %s)"
+                             % (FF_ATTRS[key], _ff_const_bool(s.value)))
+            else:
+                raise Untranslatable("_create_file: attribute value %s" % v)
+            continue
+        # local dtype helpers
+        if isinstance(s, ast.Assign) and isinstance(s.targets[0], ast.Name) and \
+                s.targets[0].id in ("data_type", "shape_type") and \
+                isinstance(s.value, ast.Call) and attr_chain(s.value.func) == ["h5py", "vlen_dtype"]:
+            skipped.append(u)
+            continue
+
+        def ds_call(node):
+            if isinstance(node, ast.Call) and attr_chain(node.func) == ["self", "_f", "create_dataset"] \
+                    and node.args and isinstance(node.args[0], ast.Constant):
+                return node
+            return None
+        # fixed datasets
+        if isinstance(s, ast.Expr) and ds_call(s.value) is not None:
+            c = ds_call(s.value)
+            name = c.args[0].value
+            kw = {k.arg: ast.unparse(k.value) for k in c.keywords}
+            if name == "hs_dim" and kw.get("data") == "[self._hs_dim]":
+                steps.append("CreateStep.arr ArrName.hsDim")
+                continue
+            raise Untranslatable("_create_file: dataset %s" % u)
+        if isinstance(s, ast.If) and isinstance(s.test, ast.Compare) and \
+                isinstance(s.test.ops[0], ast.Is) and ast.unparse(s.test.comparators[0]) == "None":
+            attr = ast.unparse(s.test.left)
+            want = {"self._dt": ("dt", "[self._dt]"), "self._transform_in": ("transform_in", "self._transform_in"),
+                    "self._transform_out": ("transform_out", "self._transform_out")}
+            if attr in want and len(s.body) == 1 and len(s.orelse) == 1 and \
+                    isinstance(s.body[0], ast.Expr) and isinstance(s.orelse[0], ast.Expr):
+                a, b = ds_call(s.body[0].value), ds_call(s.orelse[0].value)
+                if a is not None and b is not None and a.args[0].value == b.args[0].value == want[attr][0]:
+                    ka = {k.arg: ast.unparse(k.value) for k in a.keywords}
+                    kb = {k.arg: ast.unparse(k.value) for k in b.keywords}
+                    if ka.get("data") == "HDF5None" and kb.get("data") == want[attr][1] and \
+                            ast.unparse(a.args[1]) == "(1,)":
+                        steps.append("CreateStep.arr %s" % FF_ARRS[want[attr][0]])
+                        continue
+            raise Untranslatable("_create_file: optional dataset %s" % u)
+        # variable-length datasets
+        if isinstance(s, ast.Assign) and ds_call(s.value) is not None:
+            c = ds_call(s.value)
+            name = c.args[0].value
+            if name not in FF_VLEN or attr_chain(s.targets[0]) != ["self", "_" + name]:
+                raise Untranslatable("_create_file: dataset %s" % u)
+            kw = {k.arg: ast.unparse(k.value) for k in c.keywords}
+            shp = c.args[1] if len(c.args) > 1 else None
+            if not (isinstance(shp, ast.Tuple) and len(shp.elts) == 1 and
+                    isinstance(shp.elts[0], ast.Constant) and isinstance(shp.elts[0].value, int)):
+                raise Untranslatable("_create_file: shape of %s" % name)
+            v, is_data = FF_VLEN[name]
+            if kw.get("dtype") != ("data_type" if is_data else "shape_type"):
+                raise Untranslatable("_create_file: dtype of %s" % name)
+            steps.append("CreateStep.%s %s %d" % ("vdata" if is_data else "vshape", v,
+                                                  shp.elts[0].value))
+            continue
+        if u == "self.set_initial_tensor(initial_tensor=None)":
+            steps.append("CreateStep.setInitialNone")
+            continue
+        raise Untranslatable("_create_file: statement %s" % u)
+    out.append("/-- %s:%d  FileProcessTensor._create_file: statements in order -/\n"
+               "def createSteps : List CreateStep := [\n  %s]\n"
+               % (FF_REL, fn.lineno, ",\n  ".join(steps)))
+
+
+def _ff_simple_set_initial(src, out):
+    fn = src.function(FF_REL, "SimpleProcessTensor.set_initial_tensor")
+
+    def value_of(v):
+        u = ast.unparse(v)
+        if u == "None":
+            return "none"
+        if u == "initial_tensor":
+            return "x"
+        if u in ("np.array(initial_tensor, dtype=NpDtype)", "np.array(initial_tensor)"):
+            return "(some (npArray x))"
+        raise Untranslatable("set_initial_tensor: value %s" % u)
+
+    def test_of(t):
+        u = ast.unparse(t)
+        if u == "initial_tensor is None":
+            return "x.isNone"
+        if u == "initial_tensor is not None":
+            return "x.isSome"
+        raise Untranslatable("set_initial_tensor: test %s" % u)
+
+    p = _FFPath(["self", "_initial_tensor"], value_of, test_of)
+    res = p.final(_ff_body(fn), "SimpleProcessTensor.set_initial_tensor", old="old")
+    out.append("/-- %s:%d  SimpleProcessTensor.set_initial_tensor, executed symbolically: the value of\n"
+               "    `_initial_tensor` after the call with argument `x` when it held `old` before (source: %s) -/\n"
+               "def simpleSetInitial (old x : Option Tensor) : Option Tensor :=\n  %s\n"
+               % (FF_REL, fn.lineno,
+                  " ; ".join(" ".join(ast.unparse(s).split()) for s in _ff_body(fn)).replace("-/", "- /"),
+                  res))
+
+
+def _ff_pttempo(src, out):
+    rel = "oqupy/pt_tempo.py"
+    fn = src.function(rel, "PtTempo.__init__")
+    hits = [n for n in ast.walk(fn) if isinstance(n, ast.If) and any(
+        isinstance(c, ast.Call) and ast.unparse(c) == "self._init_file_process_tensor(filename, overwrite)"
+        for st in n.body for c in ast.walk(st))]
+    hits = [n for n in hits if any(ast.unparse(st) == "self._init_simple_process_tensor()"
+                                   for st in n.orelse)]
+    if len(hits) != 1:
+        raise Untranslatable("PtTempo.__init__: choice between file and simple process tensor")
+    node = hits[0]
+    table = {"process_tensor_file": "truthy",
+             "isinstance(process_tensor_file, Text)": "isText"}
+    test = _ff_flag_expr(node.test, table)
+    if len(node.body) != 2 or len(node.orelse) != 1 or not isinstance(node.body[0], ast.If):
+        raise Untranslatable("PtTempo.__init__: file branch shape")
+    inner = node.body[0]
+    t2 = _ff_flag_expr(inner.test, table)
+    a = [ast.unparse(s) for s in inner.body]
+    b = [ast.unparse(s) for s in inner.orelse]
+    if a != ["filename = process_tensor_file"] or b != ["filename = None"]:
+        raise Untranslatable("PtTempo.__init__: filename selection %r / %r" % (a, b))
+    out.append("/-- %s:%d  PtTempo.__init__: `if %s:` file-backed (named if `%s`, else a temporary "
+               "file) `else:` in memory -/\n"
+               "def ptTempoChoice (truthy isText : Bool) : PtChoice :=\n"
+               "  if %s then (if %s then PtChoice.fileNamed else PtChoice.fileTemp) else PtChoice.simple\n"
+               % (rel, node.lineno, ast.unparse(node.test), ast.unparse(inner.test), test, t2))
+    fn2 = src.function(rel, "PtTempo._init_file_process_tensor")
+    ifs = [s for s in fn2.body if isinstance(s, ast.If) and isinstance(s.test, ast.Name)
+           and s.test.id == "overwrite"]
+    if len(ifs) != 1:
+        raise Untranslatable("PtTempo._init_file_process_tensor: mode selection")
+    calls = [s for s in fn2.body if isinstance(s, ast.Assign) and
+             attr_chain(s.targets[0]) == ["self", "_process_tensor"]]
+    if len(calls) != 1:
+        raise Untranslatable("PtTempo._init_file_process_tensor: constructor call")
+    _ff_ctor_passes_mode(calls[0].value, "PtTempo._init_file_process_tensor")
+    out.append("/-- %s:%d  PtTempo._init_file_process_tensor: overwrite ↦ mode -/\n"
+               "def ptTempoMode (overwrite : Bool) : String := %s\n"
+               % (rel, ifs[0].lineno, _ff_mode_by_overwrite(ifs[0], "_init_file_process_tensor")))
+
+
+EXTRA_IMPORTS["FileFlags"] = "import OQuPyVerif.Model.PTFile\n"
+
+
+@fragment("FileFlags")
+def frag_fileflags(src):
+    out = ["open OQuPyVerif.PTFile\n"]
+    _ff_read_file(src, out)
+    _ff_close(src, out)
+    _ff_init(src, out)
+    _ff_remove(src, out)
+    _ff_export(src, out)
+    _ff_create_file(src, out)
+    _ff_simple_set_initial(src, out)
+    _ff_pttempo(src, out)
+    out.append("/-- everything above as one record (the model is a function of it) -/\n"
+               "def flags : Flags :=\n"
+               "  { readWarn := readWarn, closeReset := closeReset, closeValue := closeValue,\n"
+               "    modeFlags := modeFlags, createMode := createMode, readMode := readMode,\n"
+               "    removeable := removeable, removeSteps := removeSteps,\n"
+               "    exportMode := exportMode, exportSteps := exportSteps, createSteps := createSteps,\n"
+               "    readAttrs := readAttrs, readArrs := readArrs, readVs := readVs,\n"
+               "    simpleSetInitial := simpleSetInitial, ptTempoChoice := ptTempoChoice,\n"
+               "    ptTempoMode := ptTempoMode }\n")
+    return "\n".join(out)
+# end of FileFlags
+
+
 def main():
     ap = argparse.ArgumentParser()
     ap.add_argument("--repo", default="/repo")
@@ -496,7 +3867,7 @@ def main():
             print("translator cannot read fragment %s: %s" % (n, e))
             rc = 2
             continue
-        text = HEADER % (n, n) + body + "\nend OQuPyVerif.Generated.%s\n" % n
+        text = HEADER % (n, EXTRA_IMPORTS.get(n, ""), n) + body + "\nend OQuPyVerif.Generated.%s\n" % n
         old = open(path).read() if os.path.exists(path) else None
         if old != text:
             with open(path, "w") as f:
